@@ -6,7 +6,7 @@
    and to transform it by a simple combinator ([s_set], [s_rm], [s_mk]); the phases of the
    procedure are folds of such combinators whose value at a path is computed by
    classifying the path. *)
-From Coq Require Import ZArith List Bool Arith Lia Permutation.
+From Coq Require Import ZArith List Bool Arith Lia Permutation Sorted.
 From SP Require Import Harness Model.FS Model.PackFS Spec.PackSpec Proofs.FSProofs.
 Import ListNotations.
 
@@ -146,4 +146,1691 @@ Proof.
     intro q. rewrite node_at_upsert by exact Hp. unfold s_set. rewrite HM. reflexivity.
   - unfold isdir_b. rewrite HM, Hpar. reflexivity.
   - rewrite HM. exact Hnd.
+Qed.
+
+(* ------------------------------------------------------------------ more about paths *)
+Lemma strip_prefix_snoc : forall p a q,
+  strip_prefix (p ++ [a]) q =
+    match strip_prefix p q with
+    | Some (b :: r) => if name_eqb a b then Some r else None
+    | _ => None
+    end.
+Proof.
+  induction p as [|c p IH]; intros a q; simpl.
+  - destruct q as [|b q]; [reflexivity|]. destruct (name_eqb a b); reflexivity.
+  - destruct q as [|b q]; [reflexivity|]. destruct (name_eqb c b); [apply IH|reflexivity].
+Qed.
+
+Lemma is_prefix_snoc : forall p a q,
+  is_prefix (p ++ [a]) q =
+    match strip_prefix p q with Some (b :: _) => name_eqb a b | _ => false end.
+Proof.
+  intros. unfold is_prefix. rewrite strip_prefix_snoc.
+  destruct (strip_prefix p q) as [[|b r]|]; try reflexivity. destruct (name_eqb a b); reflexivity.
+Qed.
+
+Lemma path_eqb_snoc : forall p a q,
+  path_eqb (p ++ [a]) q =
+    match strip_prefix p q with Some [b] => name_eqb a b | _ => false end.
+Proof.
+  intros p a q. destruct (path_eqb_spec (p ++ [a]) q) as [<-|NE].
+  - rewrite strip_prefix_app. symmetry. apply name_eqb_refl.
+  - destruct (strip_prefix p q) as [[|b [|c r]]|] eqn:E; try reflexivity.
+    apply strip_prefix_some in E. subst q.
+    destruct (name_eqb_spec a b) as [->|]; [contradiction|reflexivity].
+Qed.
+
+Lemma strip_prefix_none_app : forall p q r, strip_prefix p q = None -> strip_prefix (p ++ r) q = None.
+Proof.
+  intros p q r H. destruct (strip_prefix (p ++ r) q) as [s|] eqn:E; [|reflexivity].
+  apply strip_prefix_some in E. subst q. rewrite <- app_assoc, strip_prefix_app in H. discriminate.
+Qed.
+
+Lemma is_prefix_strip : forall p q, is_prefix p q = true -> exists r, strip_prefix p q = Some r.
+Proof. intros p q H. unfold is_prefix in H. destruct (strip_prefix p q); [eauto|discriminate]. Qed.
+
+Lemma is_prefix_none : forall p q, is_prefix p q = false <-> strip_prefix p q = None.
+Proof. intros. unfold is_prefix. destruct (strip_prefix p q); split; congruence. Qed.
+
+(* q is a non-root ancestor-or-self of p ++ [a] iff it is one of p or is p ++ [a] itself *)
+Lemma on_the_way_snoc : forall q p a,
+  on_the_way q (p ++ [a]) = on_the_way q p || path_eqb q (p ++ [a]).
+Proof.
+  intros q p a. unfold on_the_way. destruct q as [|b q].
+  { destruct p; reflexivity. }
+  remember (b :: q) as x eqn:Hx.
+  destruct (is_prefix x p) eqn:E1.
+  - rewrite orb_true_l. apply is_prefix_iff in E1 as [r ->]. rewrite <- app_assoc. apply is_prefix_app.
+  - rewrite orb_false_l. destruct (path_eqb_spec x (p ++ [a])) as [->|NE]; [apply is_prefix_refl|].
+    destruct (is_prefix x (p ++ [a])) eqn:E2; [|reflexivity].
+    exfalso. apply is_prefix_iff in E2 as [r Hr].
+    destruct r as [|c0 r0].
+    + rewrite app_nil_r in Hr. congruence.
+    + destruct (exists_last (l := c0 :: r0)) as [r' [c Hc]]; [discriminate|].
+      rewrite Hc in Hr. rewrite app_assoc in Hr. apply app_inj_tail in Hr as [Hr _].
+      rewrite Hr, is_prefix_app in E1. discriminate.
+Qed.
+
+Lemma on_the_way_nil : forall p, on_the_way [] p = false.
+Proof. reflexivity. Qed.
+
+Lemma on_the_way_prefix : forall q p, on_the_way q p = true -> is_prefix q p = true /\ q <> [].
+Proof. intros [|a q] p H; [discriminate|]. split; [exact H|discriminate]. Qed.
+
+Lemma miter_app : forall St A (g : A -> M St unit) l1 l2 s,
+  miter g (l1 ++ l2) s = (miter g l1 ;;; miter g l2) s.
+Proof.
+  intros St A g l1 l2. induction l1 as [|x l1 IH]; intro s; simpl.
+  - reflexivity.
+  - unfold bind. destruct (g x s) as [u s1|s1]; [|reflexivity]. apply IH.
+Qed.
+
+Lemma final_read_pure_ok : forall f d c0 cm,
+  node_at f d = Some Dir ->
+  node_at f (d ++ [NPart 0]) = Some (File (CRows c0)) ->
+  node_at f (d ++ [NCommon]) = Some (File (CCommon cm)) ->
+  In (d ++ [NPart 0]) (find f d) ->
+  body_final_read pure_prims d f = OK tt f.
+Proof.
+  intros f d c0 cm Hd H0 Hc Hin.
+  apply existsb_path_In in Hin.
+  cbv [body_final_read pq_read_file bind ret fail p_exists p_isdir p_isfile p_find p_read p_read_opt p_info
+       pure_prims lift_q lift_o exists_b isdir_b isfile_b read].
+  cbv [negb].
+  repeat (first [rewrite Hd | rewrite Hin | rewrite H0 | rewrite Hc]; cbv beta iota).
+  reflexivity.
+Qed.
+
+Lemma write_common_pure_ok : forall f d ps c0 f',
+  node_at f (d ++ [NPart 0]) = Some (File (CRows c0)) ->
+  p_write pure_prims (d ++ [NCommon]) (CCommon ps) f = OK tt f' ->
+  body_write_common pure_prims d ps f = OK tt f'.
+Proof.
+  intros f d ps c0 f' H0 Hw.
+  cbv [body_write_common bind p_read pure_prims lift_o read].
+  rewrite H0. cbv beta iota. exact Hw.
+Qed.
+
+(* ================================================================== the procedure *)
+Section Pack.
+Variable cfg : config.
+Variable asg : assignment.
+Variable f0 : fs.
+
+Notation P := (c_path cfg).
+Notation K := (c_k cfg).
+Notation outp := (out_path cfg).
+Notation tmpp := (tmp_path cfg).
+
+Hypothesis Hprior : prior_ok f0 cfg.
+Hypothesis Hsep : tmp_separate cfg.
+
+Lemma HP : P <> [].
+Proof. destruct Hprior as (_ & H & _). exact H. Qed.
+
+Lemma Hnodup0 : nodup_keys f0 = true.
+Proof. destruct Hprior as (H & _). exact H. Qed.
+
+Lemma outp_nonnil : forall N, outp N <> [].
+Proof. intro N. apply snoc_not_nil. Qed.
+
+Lemma tmpp_nonnil : forall N, tmpp N <> [].
+Proof. intro N. unfold tmp_path. destruct (c_tmp cfg); apply snoc_not_nil. Qed.
+
+Lemma parent_outp : forall N, parent (outp N) = P.
+Proof. intro N. apply parent_snoc. Qed.
+
+(* the part of a path below the dataset directory *)
+Definition rel (q : path) : option path := strip_prefix P q.
+
+(* external temp directories: nothing at or below the dataset is at, below or above them *)
+Lemma ext_not_under_P : forall t N q r, c_tmp cfg = TExternal t ->
+  strip_prefix P q = Some r -> is_prefix (t ++ [NTmp N]) q = false.
+Proof.
+  intros t N q r Ht Hq. pose proof Hsep as Hs. unfold tmp_separate in Hs. rewrite Ht in Hs.
+  destruct Hs as [H1 H2]. destruct (is_prefix (t ++ [NTmp N]) q) eqn:E; [|reflexivity]. exfalso.
+  apply strip_prefix_some in Hq.
+  assert (Hpq : is_prefix P q = true) by (rewrite Hq; apply is_prefix_app).
+  destruct (prefix_comparable _ _ _ Hpq E) as [C|C].
+  - (* P is a prefix of t ++ [NTmp N] *)
+    apply is_prefix_iff in C as [s Hs].
+    destruct s as [|c0 s0].
+    + rewrite app_nil_r in Hs. specialize (H2 N). rewrite <- Hs, is_prefix_refl in H2. discriminate.
+    + destruct (exists_last (l := c0 :: s0)) as [s' [c Hc]]; [discriminate|].
+      rewrite Hc, app_assoc in Hs. apply app_inj_tail in Hs as [Hs _].
+      rewrite Hs, is_prefix_app in H1. discriminate.
+  - rewrite (H2 N) in C. discriminate.
+Qed.
+
+Lemma ext_not_above_P : forall t N q r, c_tmp cfg = TExternal t ->
+  strip_prefix P q = Some r -> is_prefix q (t ++ [NTmp N]) = false.
+Proof.
+  intros t N q r Ht Hq. pose proof Hsep as Hs. unfold tmp_separate in Hs. rewrite Ht in Hs.
+  destruct Hs as [H1 H2]. destruct (is_prefix q (t ++ [NTmp N])) eqn:E; [|reflexivity]. exfalso.
+  apply strip_prefix_some in Hq. subst q.
+  assert (C : is_prefix P (t ++ [NTmp N]) = true).
+  { eapply is_prefix_trans; [apply is_prefix_app|exact E]. }
+  apply is_prefix_iff in C as [s Hs].
+  destruct s as [|c0 s0].
+  - rewrite app_nil_r in Hs. specialize (H2 N). rewrite <- Hs, is_prefix_refl in H2. discriminate.
+  - destruct (exists_last (l := c0 :: s0)) as [s' [c Hc]]; [discriminate|].
+    rewrite Hc, app_assoc in Hs. apply app_inj_tail in Hs as [Hs _].
+    rewrite Hs, is_prefix_app in H1. discriminate.
+Qed.
+
+(* ------------------------------------------------------------------ phase 1: overwrite *)
+Definition S0 : spec := node_at f0.
+Definition S1 : spec := fun q => if is_prefix P q then None else S0 q.
+
+Lemma phase1 :
+  exists f1, (if c_overwrite cfg then body_rm pure_prims P else ret tt) f0 = OK tt f1 /\ good f1 S1.
+Proof.
+  destruct Hprior as (Hn & Hp & _ & Hclosed & _ & Hov).
+  destruct (c_overwrite cfg) eqn:Eo.
+  - destruct (rm_models f0 S0 P) as [f1 [E G]].
+    + split; [intro q; reflexivity|exact Hn].
+    + exact Hp.
+    + exact Hclosed.
+    + exists f1. split; [exact E|exact G].
+  - exists f0. split; [reflexivity|]. split; [|exact Hn].
+    intro q. unfold S1, S0. destruct (is_prefix P q) eqn:E; [|reflexivity]. apply Hov; auto.
+Qed.
+
+Lemma S1_under : forall q, is_prefix P q = true -> S1 q = None.
+Proof. intros q H. unfold S1. rewrite H. reflexivity. Qed.
+
+(* ------------------------------------------------------------------ phase 2: directories *)
+Definition mk_step (S : spec) (N : nat) : spec := s_mk (tmpp N) (s_mk (outp N) S).
+Definition mk_all_spec_l (l : list nat) (S : spec) : spec := fold_left mk_step l S.
+
+Definition mk_hit (l : list nat) (q : path) : bool :=
+  existsb (fun N => on_the_way q (outp N) || on_the_way q (tmpp N)) l.
+
+Lemma mk_all_spec_closed : forall l S q,
+  mk_all_spec_l l S q = if mk_hit l q then Some Dir else S q.
+Proof.
+  induction l as [|N l IH]; intros S q; simpl; [reflexivity|].
+  unfold mk_all_spec_l in *. simpl. rewrite IH. unfold mk_step, s_mk.
+  destruct (mk_hit l q); [rewrite orb_true_r; reflexivity|]. rewrite orb_false_r.
+  destruct (on_the_way q (tmpp N)); [rewrite orb_true_r; reflexivity|].
+  rewrite orb_false_r. destruct (on_the_way q (outp N)); reflexivity.
+Qed.
+
+Lemma s_isfile_mk : forall p S q, s_isfile (s_mk p S) q = true -> s_isfile S q = true.
+Proof.
+  intros p S q. unfold s_isfile, s_mk. destruct (on_the_way q p); [discriminate|auto].
+Qed.
+
+Lemma phase2_loop : forall l f S, good f S ->
+  (forall N q, In N l -> on_the_way q (outp N) || on_the_way q (tmpp N) = true -> s_isfile S q = false) ->
+  exists f', miter (fun N => w_mkdirs pure_wrappers (outp N) ;;; w_mkdirs pure_wrappers (tmpp N)) l f
+             = OK tt f' /\ good f' (mk_all_spec_l l S).
+Proof.
+  induction l as [|N l IH]; intros f S HG Hfiles; simpl.
+  - exists f. split; [reflexivity|exact HG].
+  - destruct (mkdirs_models f S (outp N) HG) as [fa [Ea Ga]].
+    { intros q Hq. apply (Hfiles N q); [left; reflexivity|]. rewrite Hq. reflexivity. }
+    destruct (mkdirs_models fa _ (tmpp N) Ga) as [fb [Eb Gb]].
+    { intros q Hq. destruct (s_isfile (s_mk (outp N) S) q) eqn:E; [|reflexivity].
+      apply s_isfile_mk in E. rewrite (Hfiles N q) in E; [discriminate|left; reflexivity|].
+      rewrite Hq. apply orb_true_r. }
+    destruct (IH fb (mk_step S N) Gb) as [f' [E' G']].
+    { intros N' q HN' Hq. destruct (s_isfile (mk_step S N) q) eqn:E; [|reflexivity].
+      unfold mk_step in E. apply s_isfile_mk in E. apply s_isfile_mk in E.
+      rewrite (Hfiles N' q) in E; [discriminate|right; exact HN'|exact Hq]. }
+    exists f'. split; [|exact G'].
+    unfold bind in *. simpl in Ea, Eb. unfold body_mkdirs in *. simpl. rewrite Ea, Eb. exact E'.
+Qed.
+
+(* no file stands where phase 2 needs a directory *)
+Lemma S1_no_file_on_the_way : forall N q,
+  on_the_way q (outp N) || on_the_way q (tmpp N) = true -> s_isfile S1 q = false.
+Proof.
+  intros N q H. destruct Hprior as (_ & Hp & Habove & _ & Hext & _).
+  unfold s_isfile, S1, S0.
+  destruct (is_prefix P q) eqn:Epq; [reflexivity|].
+  assert (Hout : on_the_way q (outp N) = true -> isfile_b f0 q = false).
+  { intro Ho. unfold out_path in Ho. rewrite on_the_way_snoc in Ho. apply orb_prop in Ho as [Ho|Ho].
+    - apply on_the_way_prefix in Ho as [Ho Hq].
+      (* q is a proper prefix of P *)
+      destruct (exists_last HP) as [P' [a EP]]. apply Habove. rewrite EP, parent_snoc.
+      rewrite EP in Ho. destruct q as [|b q]; [contradiction|]. unfold on_the_way.
+      assert (G : on_the_way (b :: q) (P' ++ [a]) = true) by exact Ho.
+      rewrite on_the_way_snoc in G. apply orb_prop in G as [G|G]; [exact G|].
+      apply path_eqb_eq in G. rewrite G, <- EP, is_prefix_refl in Epq. discriminate.
+    - apply path_eqb_eq in Ho. subst q. unfold out_path in Epq. rewrite is_prefix_app in Epq. discriminate. }
+  apply orb_prop in H as [H|H].
+  - specialize (Hout H). unfold isfile_b in Hout. exact Hout.
+  - unfold tmp_path in H. destruct (c_tmp cfg) as [|t] eqn:Et.
+    + specialize (Hout H). unfold isfile_b in Hout. exact Hout.
+    + destruct Hext as [Hext1 Hext2]. rewrite on_the_way_snoc in H. apply orb_prop in H as [H|H].
+      * specialize (Hext1 q H). unfold isfile_b in Hext1. exact Hext1.
+      * apply path_eqb_eq in H. subst q. rewrite (Hext2 N); [reflexivity|apply is_prefix_refl].
+Qed.
+
+Definition S2 : spec := mk_all_spec_l (seq 0 K) S1.
+
+Lemma phase2 : forall f1, good f1 S1 ->
+  exists f2, miter (fun N => w_mkdirs pure_wrappers (outp N) ;;; w_mkdirs pure_wrappers (tmpp N)) (seq 0 K) f1
+             = OK tt f2 /\ good f2 S2.
+Proof.
+  intros f1 G. apply phase2_loop; [exact G|]. intros N q _ H. apply (S1_no_file_on_the_way N q H).
+Qed.
+
+(* ------------------------------------------------------------------ the temp directories, uniformly *)
+Definition tbase : path := match c_tmp cfg with TInside => P | TExternal t => t end.
+Definition tname (N : nat) : name := match c_tmp cfg with TInside => NPart N | TExternal _ => NTmp N end.
+
+Lemma tmpp_eq : forall N, tmpp N = tbase ++ [tname N].
+Proof. intro N. unfold tmp_path, tbase, tname. destruct (c_tmp cfg); reflexivity. Qed.
+
+Lemma tname_inj : forall N N', tname N = tname N' -> N = N'.
+Proof. intros N N'. unfold tname. destruct (c_tmp cfg); intro H; injection H; auto. Qed.
+
+Lemma tname_eqb : forall N N', name_eqb (tname N) (tname N') = Nat.eqb N N'.
+Proof. intros. unfold tname. destruct (c_tmp cfg); reflexivity. Qed.
+
+Lemma prefix_len : forall x y, is_prefix x y = true -> List.length x <= List.length y.
+Proof. intros x y H. apply is_prefix_iff in H as [r ->]. rewrite app_length. lia. Qed.
+
+Lemma is_prefix_longer : forall (b : path) x, x <> [] -> is_prefix (b ++ x) b = false.
+Proof.
+  intros b x Hx. destruct (is_prefix (b ++ x) b) eqn:E; [|reflexivity].
+  apply prefix_len in E. rewrite app_length in E. destruct x; [contradiction|simpl in E; lia].
+Qed.
+
+(* the sub-part file of a cell *)
+Definition subp (c : cell) : path := tmpp (snd c) ++ [NSub (fst c)].
+
+Lemma subp_inj : forall c c', subp c = subp c' -> c = c'.
+Proof.
+  intros [i N] [i' N'] H. unfold subp in H. simpl in H. apply app_inj_tail in H as [H1 H2].
+  injection H2 as ->. rewrite !tmpp_eq in H1. apply app_inj_tail in H1 as [_ H1].
+  apply tname_inj in H1. subst. reflexivity.
+Qed.
+
+Lemma parent_subp : forall c, parent (subp c) = tmpp (snd c).
+Proof. intro c. apply parent_snoc. Qed.
+
+(* under the dataset path, the per-partition output paths *)
+Lemma is_prefix_outp : forall N q,
+  is_prefix (outp N) q = match strip_prefix P q with Some (NPart N' :: _) => Nat.eqb N N' | _ => false end.
+Proof.
+  intros N q. unfold out_path. rewrite is_prefix_snoc.
+  destruct (strip_prefix P q) as [[|[] r]|]; reflexivity.
+Qed.
+
+Lemma path_eqb_outp : forall N q,
+  path_eqb (outp N) q = match strip_prefix P q with Some [NPart N'] => Nat.eqb N N' | _ => false end.
+Proof.
+  intros N q. unfold out_path. rewrite path_eqb_snoc.
+  destruct (strip_prefix P q) as [[|[] [|? ?]]|]; reflexivity.
+Qed.
+
+Lemma is_prefix_tmpp : forall N q,
+  is_prefix (tmpp N) q = match strip_prefix tbase q with Some (b :: _) => name_eqb (tname N) b | _ => false end.
+Proof. intros N q. rewrite tmpp_eq. apply is_prefix_snoc. Qed.
+
+Lemma path_eqb_tmpp : forall N q,
+  path_eqb (tmpp N) q = match strip_prefix tbase q with Some [b] => name_eqb (tname N) b | _ => false end.
+Proof. intros N q. rewrite tmpp_eq. apply path_eqb_snoc. Qed.
+
+(* separation: a temp directory is never at, above or below an output path or the dataset
+   path, except that in the default mode it IS the output path of the same number *)
+Lemma tmpp_vs_P : forall N, is_prefix (tmpp N) P = false.
+Proof.
+  intro N. unfold tmp_path. destruct (c_tmp cfg) as [|t] eqn:Et.
+  - apply is_prefix_longer. discriminate.
+  - pose proof Hsep as Hs. unfold tmp_separate in Hs. rewrite Et in Hs. apply Hs.
+Qed.
+
+Lemma P_vs_tmpp_ext : forall t N, c_tmp cfg = TExternal t -> is_prefix P (t ++ [NTmp N]) = false.
+Proof.
+  intros t N Et. destruct (is_prefix P (t ++ [NTmp N])) eqn:E; [|reflexivity]. exfalso.
+  apply is_prefix_strip in E as [r E].
+  pose proof (ext_not_under_P t N _ _ Et E) as G. rewrite is_prefix_refl in G. discriminate.
+Qed.
+
+(* ------------------------------------------------------------------ the shape of S2 *)
+Hypothesis HK : 0 < K.
+
+Lemma mk_hit_form : forall l q, l <> [] ->
+  mk_hit l q = (on_the_way q P || on_the_way q tbase)
+               || existsb (fun N => path_eqb q (outp N) || path_eqb q (tmpp N)) l.
+Proof.
+  intros l q Hl. unfold mk_hit.
+  assert (G : forall N, on_the_way q (outp N) || on_the_way q (tmpp N) =
+                        (on_the_way q P || on_the_way q tbase) || (path_eqb q (outp N) || path_eqb q (tmpp N))).
+  { intro N. rewrite tmpp_eq. unfold out_path. rewrite !on_the_way_snoc.
+    destruct (on_the_way q P), (on_the_way q tbase), (path_eqb q (P ++ [NPart N])),
+      (path_eqb q (tbase ++ [tname N])); reflexivity. }
+  induction l as [|N l IH]; [contradiction|]. simpl. rewrite G.
+  destruct l as [|N' l'].
+  - simpl. rewrite !orb_false_r. reflexivity.
+  - rewrite IH by discriminate.
+    destruct (on_the_way q P || on_the_way q tbase); simpl; [rewrite ?orb_true_r; reflexivity|].
+    reflexivity.
+Qed.
+
+Lemma S2_form : forall q,
+  S2 q = if on_the_way q P || on_the_way q tbase then Some Dir
+         else if existsb (fun N => path_eqb q (outp N) || path_eqb q (tmpp N)) (seq 0 K) then Some Dir
+         else S1 q.
+Proof.
+  intro q. unfold S2. rewrite mk_all_spec_closed. rewrite mk_hit_form.
+  - destruct (on_the_way q P || on_the_way q tbase); reflexivity.
+  - destruct K; [lia|discriminate].
+Qed.
+
+Lemma S2_P : S2 P = Some Dir.
+Proof.
+  rewrite S2_form.
+  assert (G : on_the_way P P = true).
+  { unfold on_the_way. pose proof HP as H. destruct (c_path cfg); [contradiction|apply is_prefix_refl]. }
+  rewrite G. reflexivity.
+Qed.
+
+Lemma in_seq0 : forall N n, In N (seq 0 n) <-> N < n.
+Proof. intros. rewrite in_seq. lia. Qed.
+
+Lemma S2_outp : forall N, N < K -> S2 (outp N) = Some Dir.
+Proof.
+  intros N HN. rewrite S2_form. destruct (on_the_way (outp N) P || on_the_way (outp N) tbase); [reflexivity|].
+  assert (G : existsb (fun N' => path_eqb (outp N) (outp N') || path_eqb (outp N) (tmpp N')) (seq 0 K) = true).
+  { apply existsb_exists. exists N. split; [apply in_seq0; exact HN|]. rewrite path_eqb_refl. reflexivity. }
+  rewrite G. reflexivity.
+Qed.
+
+Lemma S2_tmpp : forall N, N < K -> S2 (tmpp N) = Some Dir.
+Proof.
+  intros N HN. rewrite S2_form. destruct (on_the_way (tmpp N) P || on_the_way (tmpp N) tbase); [reflexivity|].
+  assert (G : existsb (fun N' => path_eqb (tmpp N) (outp N') || path_eqb (tmpp N) (tmpp N')) (seq 0 K) = true).
+  { apply existsb_exists. exists N. split; [apply in_seq0; exact HN|]. rewrite path_eqb_refl. apply orb_true_r. }
+  rewrite G. reflexivity.
+Qed.
+
+(* strictly below an output path or a temp directory there is nothing after phase 2 *)
+Lemma on_the_way_longer : forall (b : path) x, x <> [] -> on_the_way (b ++ x) b = false.
+Proof.
+  intros b x Hx. unfold on_the_way. destruct (b ++ x) eqn:E; [reflexivity|]. rewrite <- E.
+  apply is_prefix_longer. exact Hx.
+Qed.
+
+Lemma path_eqb_len : forall (x y : path), List.length x <> List.length y -> path_eqb x y = false.
+Proof. intros x y H. apply path_eqb_neq. intro E. subst. contradiction. Qed.
+
+Lemma S0_tmp_below : forall N q, is_prefix (tmpp N) q = true -> is_prefix P q = false -> S0 q = None.
+Proof.
+  intros N q H HPq. destruct Hprior as (_ & _ & _ & _ & Hext & _). unfold tmp_path in H.
+  destruct (c_tmp cfg) as [|t] eqn:Et.
+  - unfold out_path in *. apply is_prefix_iff in H as [r ->]. rewrite <- app_assoc, is_prefix_app in HPq. discriminate.
+  - destruct Hext as [_ Hext]. apply (Hext N q H).
+Qed.
+
+Lemma S1_region_none : forall N q, is_prefix (outp N) q || is_prefix (tmpp N) q = true -> S1 q = None.
+Proof.
+  intros N q H. unfold S1. destruct (is_prefix P q) eqn:E; [reflexivity|].
+  apply orb_prop in H as [H|H].
+  - unfold out_path in H. apply is_prefix_iff in H as [r ->]. rewrite <- app_assoc, is_prefix_app in E. discriminate.
+  - eapply S0_tmp_below; eauto.
+Qed.
+
+Lemma S2_below : forall N r, r <> [] -> S2 (outp N ++ r) = None /\ S2 (tmpp N ++ r) = None.
+Proof.
+  intros N r Hr.
+  assert (Lr : 1 <= List.length r) by (destruct r; [contradiction|simpl; lia]).
+  (* nothing of length >= |base| + 2 is on the way to, or equal to, an out / temp path *)
+  assert (Gen : forall q, (is_prefix (outp N) q || is_prefix (tmpp N) q = true) ->
+            on_the_way q P = false -> on_the_way q tbase = false ->
+            (forall N', path_eqb q (outp N') = false) -> (forall N', path_eqb q (tmpp N') = false) ->
+            S2 q = None).
+  { intros q Hreg H1 H2 H3 H4. rewrite S2_form, H1, H2. simpl.
+    assert (G : existsb (fun N' => path_eqb q (outp N') || path_eqb q (tmpp N')) (seq 0 K) = false).
+    { apply not_true_is_false. intro E. apply existsb_exists in E as [N' [_ E]].
+      rewrite H3, H4 in E. discriminate. }
+    rewrite G. eapply S1_region_none; eauto. }
+  split.
+  - apply Gen.
+    + rewrite is_prefix_app. reflexivity.
+    + unfold out_path. rewrite <- app_assoc. apply on_the_way_longer. discriminate.
+    + unfold tbase. destruct (c_tmp cfg) as [|t] eqn:Et.
+      * unfold out_path. rewrite <- app_assoc. apply on_the_way_longer. discriminate.
+      * unfold on_the_way. destruct (outp N ++ r) eqn:E; [reflexivity|]. rewrite <- E.
+        destruct (is_prefix (outp N ++ r) t) eqn:E2; [|reflexivity]. exfalso.
+        pose proof Hsep as Hs. unfold tmp_separate in Hs. rewrite Et in Hs. destruct Hs as [Hs _].
+        assert (C : is_prefix P t = true).
+        { eapply is_prefix_trans; [|exact E2]. unfold out_path. rewrite <- app_assoc. apply is_prefix_app. }
+        congruence.
+    + intro N'. apply path_eqb_len. unfold out_path. rewrite !app_length. simpl. lia.
+    + intro N'. unfold tmp_path. destruct (c_tmp cfg) as [|t] eqn:Et.
+      * apply path_eqb_len. unfold out_path. rewrite !app_length. simpl. lia.
+      * apply path_eqb_neq. intro E.
+        assert (G : is_prefix (t ++ [NTmp N']) (outp N ++ r) = true) by (rewrite E; apply is_prefix_refl).
+        erewrite ext_not_under_P in G; [discriminate|exact Et|].
+        unfold out_path. rewrite <- app_assoc. apply strip_prefix_app.
+  - apply Gen.
+    + rewrite is_prefix_app. apply orb_true_r.
+    + unfold on_the_way. destruct (tmpp N ++ r) eqn:E; [reflexivity|]. rewrite <- E.
+      destruct (is_prefix (tmpp N ++ r) P) eqn:E2; [|reflexivity]. exfalso.
+      assert (C : is_prefix (tmpp N) P = true) by (eapply is_prefix_trans; [apply is_prefix_app|exact E2]).
+      rewrite tmpp_vs_P in C. discriminate.
+    + rewrite tmpp_eq, <- app_assoc. apply on_the_way_longer. discriminate.
+    + intro N'. unfold tmp_path. destruct (c_tmp cfg) as [|t] eqn:Et.
+      * apply path_eqb_len. unfold out_path. rewrite !app_length. simpl. lia.
+      * apply path_eqb_neq. intro E.
+        assert (G : is_prefix (t ++ [NTmp N]) (outp N') = true) by (rewrite <- E; apply is_prefix_app).
+        erewrite ext_not_under_P in G; [discriminate|exact Et|]. unfold out_path. apply strip_prefix_app.
+    + intro N'. apply path_eqb_len. rewrite !tmpp_eq, !app_length. simpl. lia.
+Qed.
+
+(* ------------------------------------------------------------------ phase 3: the sub-part files *)
+Hypothesis Hasg : wf_asg K asg.
+
+Definition cells_of_input (i : nat) : list cell := map (fun N => (i, N)) (nth i asg []).
+Definition cells3 : list cell := flat_map cells_of_input (c_iorder cfg).
+
+Definition set_step (S : spec) (c : cell) : spec := s_set (subp c) (File (CRows [c])) S.
+Definition set_all (L : list cell) (S : spec) : spec := fold_left set_step L S.
+
+Lemma miter_map : forall St A B (g : B -> M St unit) (h : A -> B) l s,
+  miter g (map h l) s = miter (fun x => g (h x)) l s.
+Proof.
+  intros St A B g h l. induction l as [|x l IH]; intro s; simpl; [reflexivity|].
+  unfold bind. destruct (g (h x) s); [apply IH|reflexivity].
+Qed.
+
+Lemma phase3_flat : forall l f,
+  miter (process_partition pure_wrappers cfg asg) l f =
+  miter (fun c => w_write_partition pure_wrappers (subp c) (CRows [c])) (flat_map cells_of_input l) f.
+Proof.
+  induction l as [|i l IH]; intro f; simpl; [reflexivity|].
+  rewrite miter_app. unfold bind.
+  assert (E : process_partition pure_wrappers cfg asg i f =
+              miter (fun c => w_write_partition pure_wrappers (subp c) (CRows [c])) (cells_of_input i) f).
+  { unfold process_partition, cells_of_input. rewrite miter_map. reflexivity. }
+  rewrite E. destruct (miter _ (cells_of_input i) f) as [u f1|f1]; [apply IH|reflexivity].
+Qed.
+
+Lemma cells3_valid : forall c, In c cells3 -> snd c < K /\ In (snd c) (nth (fst c) asg []).
+Proof.
+  intros c H. unfold cells3 in H. apply in_flat_map in H as [i [_ H]].
+  unfold cells_of_input in H. apply in_map_iff in H as [N [<- HN]]. simpl. split; [|exact HN].
+  destruct (nth_in_or_default i asg []) as [Hin|Hd].
+  - apply (Hasg _ _ Hin HN).
+  - rewrite Hd in HN. contradiction.
+Qed.
+
+Lemma subp_neq_tmpp : forall c N, path_eqb (subp c) (tmpp N) = false.
+Proof.
+  intros c N. apply path_eqb_len. unfold subp. rewrite !tmpp_eq, !app_length. simpl. lia.
+Qed.
+
+Lemma miter_cons : forall St A (g : A -> M St unit) x l s,
+  miter g (x :: l) s = match g x s with OK _ s1 => miter g l s1 | Err s1 => Err s1 end.
+Proof. reflexivity. Qed.
+
+Lemma phase3_loop : forall L f S, good f S ->
+  (forall c, In c L -> S (tmpp (snd c)) = Some Dir) ->
+  (forall c, In c L -> S (subp c) <> Some Dir) ->
+  exists f', miter (fun c => w_write_partition pure_wrappers (subp c) (CRows [c])) L f = OK tt f' /\
+             good f' (set_all L S).
+Proof.
+  induction L as [|c L IH]; intros f S HG Hd Hn.
+  - exists f. split; [reflexivity|exact HG].
+  - rewrite miter_cons.
+    destruct (write_models f S (subp c) (CRows [c]) HG) as [fa [Ea Ga]].
+    + apply snoc_not_nil.
+    + rewrite parent_subp. apply Hd. left. reflexivity.
+    + apply Hn. left. reflexivity.
+    + destruct (IH fa (set_step S c) Ga) as [f' [E' G']].
+      * intros c' Hc'. unfold set_step, s_set. rewrite subp_neq_tmpp. apply Hd. right. exact Hc'.
+      * intros c' Hc'. unfold set_step, s_set. destruct (path_eqb (subp c) (subp c')); [discriminate|].
+        apply Hn. right. exact Hc'.
+      * exists f'. split; [|exact G'].
+        change (w_write_partition pure_wrappers (subp c) (CRows [c]) f)
+          with (p_write pure_prims (subp c) (CRows [c]) f).
+        rewrite Ea. exact E'.
+Qed.
+
+Lemma set_all_snoc : forall L c S, set_all (L ++ [c]) S = set_step (set_all L S) c.
+Proof. intros. unfold set_all. rewrite fold_left_app. reflexivity. Qed.
+
+Lemma set_all_miss : forall L S q, (forall c, In c L -> subp c <> q) -> set_all L S q = S q.
+Proof.
+  induction L as [|c L IH] using rev_ind; intros S q H; [reflexivity|].
+  rewrite set_all_snoc. unfold set_step, s_set.
+  destruct (path_eqb_spec (subp c) q) as [E|NE].
+  - exfalso. apply (H c); [apply in_or_app; right; left; reflexivity|exact E].
+  - apply IH. intros c' Hc'. apply H. apply in_or_app. left. exact Hc'.
+Qed.
+
+Lemma set_all_hit : forall L S c, In c L -> set_all L S (subp c) = Some (File (CRows [c])).
+Proof.
+  induction L as [|c0 L IH] using rev_ind; intros S c H; [contradiction|].
+  rewrite set_all_snoc. unfold set_step, s_set.
+  destruct (path_eqb_spec (subp c0) (subp c)) as [E|NE].
+  - apply subp_inj in E. subst. reflexivity.
+  - apply IH. apply in_app_or in H as [H|[H|[]]]; [exact H|]. subst. contradiction.
+Qed.
+
+Definition S3 : spec := set_all cells3 S2.
+
+Lemma subp_below : forall c, exists r, r <> [] /\ subp c = tmpp (snd c) ++ r.
+Proof. intro c. exists [NSub (fst c)]. split; [discriminate|reflexivity]. Qed.
+
+Lemma phase3 : forall f2, good f2 S2 ->
+  exists f3, miter (process_partition pure_wrappers cfg asg) (c_iorder cfg) f2 = OK tt f3 /\ good f3 S3.
+Proof.
+  intros f2 G. rewrite phase3_flat. apply phase3_loop; [exact G| |].
+  - intros c Hc. apply S2_tmpp. apply cells3_valid. exact Hc.
+  - intros c Hc. destruct (subp_below c) as [r [Hr ->]].
+    destruct (S2_below (snd c) r Hr) as [_ E]. rewrite E. discriminate.
+Qed.
+
+(* ------------------------------------------------------------------ listings and reads *)
+Lemma count_path_perm : forall p a b, Permutation a b -> count_path p a = count_path p b.
+Proof.
+  intros p a b H. induction H as [|x l l' H IH|x y l|l l' l'' H1 IH1 H2 IH2]; simpl.
+  - reflexivity.
+  - rewrite IH. reflexivity.
+  - lia.
+  - congruence.
+Qed.
+
+Lemma perm_eqb_of_perm : forall a b, Permutation a b -> paths_perm_eqb a b = true.
+Proof.
+  intros a b H. unfold paths_perm_eqb. apply andb_true_intro. split.
+  - apply Nat.eqb_eq. apply Permutation_length. exact H.
+  - apply forallb_forall. intros x _. apply Nat.eqb_eq. apply count_path_perm. exact H.
+Qed.
+
+Lemma insert_path_perm : forall p l, Permutation (insert_path p l) (p :: l).
+Proof.
+  intros p l. induction l as [|q l IH]; simpl; [reflexivity|].
+  destruct (path_leb p q); [reflexivity|].
+  rewrite IH. apply perm_swap.
+Qed.
+
+Lemma sort_paths_perm : forall l, Permutation (sort_paths l) l.
+Proof.
+  induction l as [|p l IH]; simpl; [reflexivity|]. rewrite insert_path_perm. constructor. exact IH.
+Qed.
+
+Lemma In_children_iff : forall f p c,
+  In c (children f p) <-> is_child p c = true /\ assoc f c <> None.
+Proof.
+  intros f p c. unfold children. rewrite in_map_iff. split.
+  - intros [[k n] [E H]]. simpl in E. subst k. apply filter_In in H as [H Hc]. simpl in Hc.
+    split; [exact Hc|]. apply In_keys_assoc. apply in_map_iff. exists (c, n). auto.
+  - intros [Hc Ha]. apply In_keys_assoc in Ha. apply in_map_iff in Ha as [[k n] [E H]]. simpl in E. subst k.
+    exists (c, n). split; [reflexivity|]. apply filter_In. auto.
+Qed.
+
+Lemma NoDup_map_filter : forall A B (g : A -> B) (h : A -> bool) l,
+  NoDup (map g l) -> NoDup (map g (filter h l)).
+Proof.
+  intros A B g h l. induction l as [|x l IH]; intro H; simpl; [constructor|].
+  inversion H as [|? ? Hx Hl]. subst. destruct (h x); simpl; [|apply IH; exact Hl].
+  constructor; [|apply IH; exact Hl]. intro Hin. apply Hx.
+  apply in_map_iff in Hin as [y [E Hy]]. apply filter_In in Hy as [Hy _].
+  apply in_map_iff. eauto.
+Qed.
+
+Lemma NoDup_children : forall f p, nodup_keys f = true -> NoDup (children f p).
+Proof.
+  intros f p H. unfold children. apply NoDup_map_filter. apply nodup_keys_NoDup. exact H.
+Qed.
+
+Lemma pq_read_file_ok : forall f p cs, node_at f p = Some (File (CRows cs)) ->
+  pq_read_file pure_prims p f = OK cs f.
+Proof.
+  intros f p cs H. unfold pq_read_file, bind. simpl. unfold lift_q, lift_o, isfile_b, read.
+  rewrite H. cbv iota beta. rewrite ?H. reflexivity.
+Qed.
+
+Lemma mmap_cons_eq : forall St A B (g : A -> M St B) x t s,
+  mmap g (x :: t) s =
+    match g x s with
+    | OK y s1 => match mmap g t s1 with OK ys s2 => OK (y :: ys) s2 | Err s2 => Err s2 end
+    | Err s1 => Err s1
+    end.
+Proof.
+  intros. simpl. unfold bind. destruct (g x s) as [y s1|s1]; [|reflexivity].
+  destruct (mmap g t s1); reflexivity.
+Qed.
+
+Lemma mmap_try_ok : forall f l cs,
+  Forall2 (fun p c => node_at f p = Some (File (CRows [c]))) l cs ->
+  mmap (fun p => try (pq_read_file pure_prims p)) l f = OK (map (fun c => Some [c]) cs) f.
+Proof.
+  intros f l cs H. induction H as [|p c l cs Hp H IH]; [reflexivity|].
+  rewrite mmap_cons_eq. unfold try at 1. rewrite (pq_read_file_ok _ _ _ Hp). rewrite IH. reflexivity.
+Qed.
+
+Lemma pq_read_list_ok : forall f l cs, l <> [] ->
+  Forall2 (fun p c => node_at f p = Some (File (CRows [c]))) l cs ->
+  pq_read_list pure_prims l f = OK cs f.
+Proof.
+  intros f l cs Hl H. unfold pq_read_list. destruct l as [|p0 l]; [contradiction|].
+  inversion H as [|? c0 ? cs0 Hp0 H0]. subst.
+  unfold bind. rewrite (pq_read_file_ok _ _ _ Hp0). rewrite (mmap_try_ok _ _ _ H).
+  assert (G1 : forallb (fun r : option (list cell) => match r with Some _ => true | None => false end)
+                 (map (fun c => Some [c]) (c0 :: cs0)) = true).
+  { apply forallb_forall. intros x Hx. apply in_map_iff in Hx as [c [<- _]]. reflexivity. }
+  rewrite G1. unfold ret. f_equal.
+  clear. induction (c0 :: cs0) as [|c l IH]; simpl; [reflexivity|]. rewrite IH. reflexivity.
+Qed.
+
+(* the sub-part paths of an output are the sub-part files of its cells *)
+Lemma subparts_from_cells : forall a i N,
+  subparts_from cfg a i N = map subp (cells_from a i N).
+Proof.
+  induction a as [|outs a IH]; intros i N; simpl; [reflexivity|].
+  rewrite map_app, IH. destruct (existsb (Nat.eqb N) outs); reflexivity.
+Qed.
+
+Lemma subparts_cells : forall N, subparts cfg asg N = map subp (cells_of asg N).
+Proof. intro N. apply subparts_from_cells. Qed.
+
+Lemma cells_from_spec : forall a i N c,
+  In c (cells_from a i N) <-> exists j, c = (i + j, N) /\ In N (nth j a []) .
+Proof.
+  induction a as [|outs a IH]; intros i N c; simpl.
+  - split; [contradiction|]. intros [j [_ H]]. destruct j; contradiction.
+  - rewrite in_app_iff, IH. split.
+    + intros [H|[j [-> H]]].
+      * destruct (existsb (Nat.eqb N) outs) eqn:E; [|contradiction]. destruct H as [<-|[]].
+        exists 0. split; [f_equal; lia|]. simpl. apply existsb_exists in E as [x [Hx E]].
+        apply Nat.eqb_eq in E. subst. exact Hx.
+      * exists (S j). split; [f_equal; lia|exact H].
+    + intros [[|j] [-> H]].
+      * left. simpl in H.
+        assert (E : existsb (Nat.eqb N) outs = true).
+        { apply existsb_exists. exists N. split; [exact H|apply Nat.eqb_refl]. }
+        rewrite E. left. f_equal. lia.
+      * right. exists j. split; [f_equal; lia|exact H].
+Qed.
+
+Lemma cells_of_spec : forall N c, In c (cells_of asg N) <-> snd c = N /\ In N (nth (fst c) asg []).
+Proof.
+  intros N [i N']. unfold cells_of. rewrite cells_from_spec. simpl. split.
+  - intros [j [E H]]. injection E as -> ->. auto.
+  - intros [-> H]. exists i. auto.
+Qed.
+
+Lemma NoDup_cells_from : forall a i N, NoDup (cells_from a i N).
+Proof.
+  induction a as [|outs a IH]; intros i N; simpl; [constructor|].
+  destruct (existsb (Nat.eqb N) outs); simpl; [|apply IH].
+  constructor; [|apply IH]. intro H. apply cells_from_spec in H as [j [E _]]. injection E. lia.
+Qed.
+
+(* ------------------------------------------------------------------ phase 4: concat_parts *)
+Hypothesis Hord : wf_orders cfg asg.
+
+Definition in_reg (N : nat) (q : path) : bool := is_prefix (outp N) q || is_prefix (tmpp N) q.
+
+Lemma cells3_iff : forall c, In c cells3 <-> In c (cells_of asg (snd c)).
+Proof.
+  intros [i N]. rewrite cells_of_spec. simpl. unfold cells3. rewrite in_flat_map. split.
+  - intros [j [_ H]]. unfold cells_of_input in H. apply in_map_iff in H as [N' [E H]].
+    injection E as -> ->. auto.
+  - intros [_ H]. exists i. split.
+    + destruct Hord as [Hio _]. apply (Permutation_in _ (Permutation_sym Hio)). apply in_seq0.
+      destruct (Nat.lt_ge_cases i (List.length asg)) as [L|L]; [exact L|].
+      rewrite nth_overflow in H by exact L. contradiction.
+    + unfold cells_of_input. apply in_map. exact H.
+Qed.
+
+Lemma subp_in_reg : forall c, in_reg (snd c) (subp c) = true.
+Proof. intro c. unfold in_reg, subp. rewrite is_prefix_app. apply orb_true_r. Qed.
+
+Lemma subp_vs_outp : forall c N, path_eqb (subp c) (outp N) = false.
+Proof.
+  intros c N. unfold subp, tmp_path. destruct (c_tmp cfg) as [|t] eqn:Et.
+  - apply path_eqb_len. unfold out_path. rewrite !app_length. simpl. lia.
+  - apply path_eqb_neq. intro E.
+    assert (G : is_prefix (t ++ [NTmp (snd c)]) (outp N) = true) by (rewrite <- E; apply is_prefix_app).
+    erewrite ext_not_under_P in G; [discriminate|exact Et|]. unfold out_path. apply strip_prefix_app.
+Qed.
+
+Lemma S3_tmpp : forall N, N < K -> S3 (tmpp N) = Some Dir.
+Proof.
+  intros N HN. unfold S3. rewrite set_all_miss; [apply S2_tmpp; exact HN|].
+  intros c _ E. pose proof (subp_neq_tmpp c N) as G. rewrite E, path_eqb_refl in G. discriminate.
+Qed.
+
+Lemma S3_outp : forall N, N < K -> S3 (outp N) = Some Dir.
+Proof.
+  intros N HN. unfold S3. rewrite set_all_miss; [apply S2_outp; exact HN|].
+  intros c _ E. pose proof (subp_vs_outp c N) as G. rewrite E, path_eqb_refl in G. discriminate.
+Qed.
+
+Lemma S3_P : S3 P = Some Dir.
+Proof.
+  unfold S3. rewrite set_all_miss; [apply S2_P|].
+  intros c _ E. pose proof (tmpp_vs_P (snd c)) as G.
+  rewrite <- E in G. unfold subp in G. rewrite is_prefix_app in G. discriminate.
+Qed.
+
+Lemma S3_subp : forall c, In c (cells_of asg (snd c)) -> S3 (subp c) = Some (File (CRows [c])).
+Proof. intros c H. apply set_all_hit. apply cells3_iff. exact H. Qed.
+
+(* the directory listing of a temp directory whose region is still as phase 3 left it *)
+Lemma children_tmpp : forall N f S, good f S ->
+  (forall q, in_reg N q = true -> S q = S3 q) ->
+  Permutation (children f (tmpp N)) (map subp (cells_of asg N)).
+Proof.
+  intros N f S [HM HN] Hreg. apply NoDup_Permutation.
+  - apply NoDup_children. exact HN.
+  - apply FinFun.Injective_map_NoDup; [intros x y; apply subp_inj|apply NoDup_cells_from].
+  - intro x. rewrite In_children_iff, in_map_iff. split.
+    + intros [Hc Ha]. apply is_child_iff in Hc as [a ->].
+      assert (Hx : tmpp N ++ [a] <> []) by apply snoc_not_nil.
+      rewrite <- node_at_nonnil in Ha by exact Hx. rewrite HM in Ha.
+      rewrite Hreg in Ha by (unfold in_reg; rewrite is_prefix_app; apply orb_true_r).
+      destruct (existsb (fun c => path_eqb (subp c) (tmpp N ++ [a])) cells3) eqn:Ex.
+      * apply existsb_exists in Ex as [c [Hc E]]. apply path_eqb_eq in E.
+        exists c. split; [exact E|]. unfold subp in E. apply app_inj_tail in E as [E _].
+        rewrite !tmpp_eq in E. apply app_inj_tail in E as [_ E]. apply tname_inj in E.
+        apply cells3_iff in Hc. rewrite E in Hc. exact Hc.
+      * exfalso. apply Ha. unfold S3. rewrite set_all_miss.
+        -- apply S2_below. discriminate.
+        -- intros c Hc E. assert (G : existsb (fun c => path_eqb (subp c) (tmpp N ++ [a])) cells3 = true).
+           { apply existsb_exists. exists c. split; [exact Hc|]. rewrite E. apply path_eqb_refl. }
+           congruence.
+    + intros [c [<- Hc]]. pose proof Hc as Hc'. apply cells_of_spec in Hc' as [Hs _].
+      split.
+      * apply is_child_iff. exists (NSub (fst c)). unfold subp. rewrite Hs. reflexivity.
+      * rewrite <- node_at_nonnil by apply snoc_not_nil. rewrite HM, Hreg.
+        -- rewrite S3_subp; [discriminate|]. rewrite Hs. exact Hc.
+        -- rewrite <- Hs. apply subp_in_reg.
+Qed.
+
+Lemma body_read_parquet_pure : forall tmp subs out f l,
+  isfile_b f out = false -> ls f tmp = Some l -> paths_perm_eqb subs (sort_paths l) = true ->
+  body_read_parquet pure_prims tmp subs out f = pq_read_list pure_prims (sort_paths l) f.
+Proof.
+  intros tmp subs out f l H1 H2 H3. unfold body_read_parquet.
+  unfold bind at 1. simpl p_isfile. unfold lift_q at 1. rewrite H1.
+  unfold bind at 1. unfold ret at 1.
+  unfold bind at 1. simpl p_ls. unfold lift_o at 1. rewrite H2. rewrite H3. reflexivity.
+Qed.
+
+Definition U (N : nat) (r : option (list cell)) (S : spec) : spec :=
+  match r with
+  | Some cells => s_set (outp N) (File (CRows cells)) (s_rm (outp N) (s_rm (tmpp N) S))
+  | None => s_rm (outp N) (s_rm (tmpp N) S)
+  end.
+
+Lemma two_rms : forall N f S, N < K -> good f S -> (forall q, in_reg N q = true -> S q = S3 q) ->
+  exists f2, (w_rm pure_wrappers (tmpp N) ;;; w_rm pure_wrappers (outp N)) f = OK tt f2 /\
+             good f2 (s_rm (outp N) (s_rm (tmpp N) S)).
+Proof.
+  intros N f S HN HG Hreg.
+  destruct (rm_models f S (tmpp N) HG (tmpp_nonnil N)) as [f1 [E1 G1]].
+  { intro H. rewrite Hreg, S3_tmpp in H by (try exact HN; unfold in_reg; rewrite is_prefix_refl; apply orb_true_r).
+    discriminate. }
+  destruct (rm_models f1 _ (outp N) G1 (outp_nonnil N)) as [f2 [E2 G2]].
+  { intros H q Hq. unfold s_rm in *.
+    destruct (is_prefix (tmpp N) (outp N)) eqn:Eto.
+    - rewrite (is_prefix_trans _ _ _ Eto Hq). reflexivity.
+    - rewrite Hreg, S3_outp in H by (try exact HN; unfold in_reg; rewrite is_prefix_refl; reflexivity).
+      discriminate. }
+  exists f2. split; [|exact G2]. unfold bind.
+  change (w_rm pure_wrappers (tmpp N) f) with (body_rm pure_prims (tmpp N) f). rewrite E1.
+  exact E2.
+Qed.
+
+Lemma concat_step : forall N f S, N < K -> good f S -> S P = Some Dir ->
+  (forall q, in_reg N q = true -> S q = S3 q) ->
+  exists r f', concat_parts pure_wrappers (tmpp N) (subparts cfg asg N) (outp N) f = OK r f' /\
+    good f' (U N r S) /\
+    ((r = None /\ cells_of asg N = []) \/
+     (exists cells, r = Some cells /\ Permutation cells (cells_of asg N) /\ cells_of asg N <> [])).
+Proof.
+  intros N f S HN HG HSP Hreg. rewrite subparts_cells.
+  destruct (two_rms N f S HN HG Hreg) as [f2 [E2 G2]].
+  destruct (cells_of asg N) as [|c0 cs] eqn:Ec.
+  - (* empty output: remove the temp directory and the placeholder *)
+    exists None, f2. split; [|split; [exact G2|left; auto]].
+    change (concat_parts pure_wrappers (tmpp N) (map subp []) (outp N) f) with
+      ((w_rm pure_wrappers (tmpp N) ;;; w_rm pure_wrappers (outp N) ;;; ret (@None (list cell))) f).
+    unfold bind in *.
+    destruct (w_rm pure_wrappers (tmpp N) f) as [u fa|fa]; [|discriminate].
+    rewrite E2. reflexivity.
+  - (* read the sub-parts *)
+    pose proof HG as [HM HNd].
+    pose proof (children_tmpp N f S HG Hreg) as Hperm. rewrite Ec in Hperm.
+    assert (Hsort : Permutation (sort_paths (children f (tmpp N))) (map subp (c0 :: cs))).
+    { rewrite sort_paths_perm. exact Hperm. }
+    destruct (Permutation_map_inv _ _ Hsort) as [cs' [Ecs' Hcs']].
+    assert (Hread : pq_read_list pure_prims (sort_paths (children f (tmpp N))) f = OK cs' f).
+    { apply pq_read_list_ok.
+      - intro E. rewrite E in Hsort. apply Permutation_nil in Hsort. discriminate.
+      - rewrite Ecs'. clear Ecs'.
+        assert (Hall : forall c, In c cs' -> node_at f (subp c) = Some (File (CRows [c]))).
+        { intros c Hc. assert (Hc0 : In c (cells_of asg N)).
+          { rewrite Ec. apply (Permutation_in _ (Permutation_sym Hcs')). exact Hc. }
+          pose proof Hc0 as Hc1. apply cells_of_spec in Hc1 as [Hs _].
+          rewrite HM, Hreg by (rewrite <- Hs; apply subp_in_reg).
+          apply S3_subp. rewrite Hs. exact Hc0. }
+        clear - Hall. induction cs' as [|c l IH]; simpl; constructor.
+        + apply Hall. left. reflexivity.
+        + apply IH. intros c' Hc'. apply Hall. right. exact Hc'. }
+    assert (Hrd : w_read_parquet pure_wrappers (tmpp N) (map subp (c0 :: cs)) (outp N) f = OK cs' f).
+    { change (w_read_parquet pure_wrappers) with (body_read_parquet pure_prims).
+      rewrite (body_read_parquet_pure _ _ _ _ (children f (tmpp N))); [exact Hread| | |].
+      - unfold isfile_b. rewrite HM, Hreg, S3_outp; [reflexivity|exact HN|].
+        unfold in_reg. rewrite is_prefix_refl. reflexivity.
+      - unfold ls. rewrite HM, Hreg, S3_tmpp; [reflexivity|exact HN|].
+        unfold in_reg. rewrite is_prefix_refl. apply orb_true_r.
+      - apply perm_eqb_of_perm. apply Permutation_sym. exact Hsort. }
+    (* write the part *)
+    destruct (write_models f2 _ (outp N) (CRows cs') G2 (outp_nonnil N)) as [f3 [E3 G3]].
+    { rewrite parent_outp. unfold s_rm.
+      assert (G : is_prefix (outp N) P = false).
+      { unfold out_path. apply is_prefix_longer. discriminate. }
+      rewrite G, tmpp_vs_P. exact HSP. }
+    { unfold s_rm at 1. rewrite is_prefix_refl. discriminate. }
+    exists (Some cs'), f3. split; [|split; [exact G3|]].
+    + change (concat_parts pure_wrappers (tmpp N) (map subp (c0 :: cs)) (outp N) f) with
+        ((cells <- w_read_parquet pure_wrappers (tmpp N) (map subp (c0 :: cs)) (outp N) ;;
+          w_rm pure_wrappers (tmpp N) ;;; w_rm pure_wrappers (outp N) ;;;
+          w_write_concatted pure_wrappers (outp N) cells ;;; ret (Some cells)) f).
+      unfold bind at 1. rewrite Hrd. unfold bind in *.
+      destruct (w_rm pure_wrappers (tmpp N) f) as [u fa|fa]; [|discriminate]. rewrite E2.
+      change (w_write_concatted pure_wrappers (outp N) cs' f2) with (p_write pure_prims (outp N) (CRows cs') f2).
+      rewrite E3. reflexivity.
+    + right. exists cs'. split; [reflexivity|]. split; [|discriminate].
+      apply Permutation_sym. exact Hcs'.
+Qed.
+
+(* regions of different outputs are disjoint *)
+Lemma reg_disjoint : forall N N' q, N <> N' -> in_reg N' q = true -> in_reg N q = false.
+Proof.
+  intros N N' q NE H. unfold in_reg in *. rewrite !is_prefix_outp, !is_prefix_tmpp in *.
+  destruct (c_tmp cfg) as [|t] eqn:Et.
+  - (* default mode: the temp directory is the output path *)
+    assert (Eb : tbase = P) by (unfold tbase; rewrite Et; reflexivity).
+    assert (En : forall M, tname M = NPart M) by (intro M; unfold tname; rewrite Et; reflexivity).
+    rewrite Eb, !En in *.
+    destruct (strip_prefix P q) as [[|[M| | | | |] r]|]; simpl in *; try discriminate.
+    apply orb_prop in H. assert (E : Nat.eqb N' M = true) by (destruct H; assumption).
+    apply Nat.eqb_eq in E. subst M.
+    assert (G : Nat.eqb N N' = false) by (apply Nat.eqb_neq; exact NE). rewrite G. reflexivity.
+  - assert (Eb : tbase = t) by (unfold tbase; rewrite Et; reflexivity).
+    assert (En : forall M, tname M = NTmp M) by (intro M; unfold tname; rewrite Et; reflexivity).
+    rewrite Eb, !En in *.
+    destruct (strip_prefix P q) as [rl|] eqn:EP.
+    + (* q under the dataset: not under any temp directory *)
+      assert (Gt : forall M, match strip_prefix t q with Some (b :: _) => name_eqb (NTmp M) b | _ => false end = false).
+      { intro M. pose proof (ext_not_under_P t M q rl Et EP) as G. rewrite is_prefix_snoc in G. exact G. }
+      rewrite !Gt in *. rewrite orb_false_r in *.
+      destruct rl as [|[M| | | | |] r]; simpl in *; try discriminate.
+      apply Nat.eqb_eq in H. subst M. apply Nat.eqb_neq. exact NE.
+    + simpl in *. destruct (strip_prefix t q) as [[|[| |M| | |] r]|]; simpl in *; try discriminate.
+      apply Nat.eqb_eq in H. subst M. apply Nat.eqb_neq. exact NE.
+Qed.
+
+Lemma U_miss : forall N r S q, in_reg N q = false -> U N r S q = S q.
+Proof.
+  intros N r S q H. unfold in_reg in H. apply orb_false_elim in H as [H1 H2].
+  assert (G : path_eqb (outp N) q = false).
+  { destruct (path_eqb_spec (outp N) q) as [<-|]; [|reflexivity]. rewrite is_prefix_refl in H1. discriminate. }
+  unfold U. destruct r; unfold s_set, s_rm; rewrite ?G, H1, H2; reflexivity.
+Qed.
+
+Definition U_val (N : nat) (r : option (list cell)) (q : path) : option node :=
+  match r with
+  | Some cells => if path_eqb (outp N) q then Some (File (CRows cells)) else None
+  | None => None
+  end.
+
+Lemma U_hit : forall N r S q, in_reg N q = true -> U N r S q = U_val N r q.
+Proof.
+  intros N r S q H. unfold U, U_val, s_set, s_rm. unfold in_reg in H.
+  destruct r as [cells|].
+  - destruct (path_eqb (outp N) q); [reflexivity|].
+    destruct (is_prefix (outp N) q); [reflexivity|]. simpl in H. rewrite H. reflexivity.
+  - destruct (is_prefix (outp N) q); [reflexivity|]. simpl in H. rewrite H. reflexivity.
+Qed.
+
+Definition Ufold (rs : list (nat * option (list cell))) (S : spec) : spec :=
+  fold_left (fun S nr => U (fst nr) (snd nr) S) rs S.
+
+Lemma Ufold_miss : forall rs S q, (forall nr, In nr rs -> in_reg (fst nr) q = false) -> Ufold rs S q = S q.
+Proof.
+  induction rs as [|[N r] rs IH]; intros S q H; [reflexivity|].
+  unfold Ufold in *. simpl. rewrite IH.
+  - apply U_miss. apply (H (N, r)). left. reflexivity.
+  - intros nr Hnr. apply H. right. exact Hnr.
+Qed.
+
+Lemma Ufold_hit : forall rs S N r q, NoDup (map fst rs) -> In (N, r) rs -> in_reg N q = true ->
+  Ufold rs S q = U_val N r q.
+Proof.
+  induction rs as [|[N0 r0] rs IH]; intros S N r q Hnd Hin Hq; [contradiction|].
+  unfold Ufold in *. simpl in *. inversion Hnd as [|? ? Hx Hnd']. subst.
+  destruct Hin as [E|Hin].
+  - injection E as -> ->. change (Ufold rs (U N r S) q = U_val N r q). rewrite Ufold_miss.
+    + apply U_hit. exact Hq.
+    + intros [N' r'] Hnr. simpl. apply (reg_disjoint N' N q); [|exact Hq].
+      intros ->. apply Hx. apply in_map_iff. exists (N, r'). auto.
+  - apply IH; assumption.
+Qed.
+
+Definition res_ok (N : nat) (r : option (list cell)) : Prop :=
+  (r = None /\ cells_of asg N = []) \/
+  (exists cells, r = Some cells /\ Permutation cells (cells_of asg N) /\ cells_of asg N <> []).
+
+Definition concat_task (N : nat) : M fs (nat * option (list cell)) :=
+  r <- concat_parts pure_wrappers (tmpp N) (subparts cfg asg N) (outp N) ;; ret (N, r).
+
+Lemma U_P : forall N r S, U N r S P = S P.
+Proof.
+  intros N r S. apply U_miss. unfold in_reg. rewrite tmpp_vs_P.
+  assert (G : is_prefix (outp N) P = false) by (unfold out_path; apply is_prefix_longer; discriminate).
+  rewrite G. reflexivity.
+Qed.
+
+Lemma concat_loop : forall l f S, NoDup l -> (forall N, In N l -> N < K) -> good f S -> S P = Some Dir ->
+  (forall N q, In N l -> in_reg N q = true -> S q = S3 q) ->
+  exists rs f', mmap concat_task l f = OK rs f' /\ good f' (Ufold rs S) /\ map fst rs = l /\
+                Forall (fun nr => res_ok (fst nr) (snd nr)) rs.
+Proof.
+  induction l as [|N l IH]; intros f S Hnd Hlt HG HSP Hreg.
+  - exists [], f. repeat split; [exact (proj1 HG)|exact (proj2 HG)|constructor].
+  - inversion Hnd as [|? ? Hx Hnd']. subst.
+    destruct (concat_step N f S) as [r [f1 [E1 [G1 R1]]]];
+      [apply Hlt; left; reflexivity|exact HG|exact HSP|intros q Hq; apply (Hreg N q); [left; reflexivity|exact Hq]|].
+    destruct (IH f1 (U N r S) Hnd') as [rs [f' [E' [G' [Hfst Hres]]]]].
+    + intros N' H'. apply Hlt. right. exact H'.
+    + exact G1.
+    + rewrite U_P. exact HSP.
+    + intros N' q H' Hq. rewrite U_miss.
+      * apply (Hreg N' q); [right; exact H'|exact Hq].
+      * apply (reg_disjoint N N' q); [|exact Hq]. intros ->. contradiction.
+    + exists ((N, r) :: rs), f'. split; [|split; [exact G'|split; [simpl; rewrite Hfst; reflexivity|]]].
+      * rewrite mmap_cons_eq. unfold concat_task at 1. unfold bind at 1. rewrite E1. unfold ret at 1.
+        rewrite E'. reflexivity.
+      * constructor; [exact R1|exact Hres].
+Qed.
+
+(* ------------------------------------------------------------------ phase 5: compaction *)
+Definition s_mv (p1 dst : path) (S : spec) : spec :=
+  fun q => match strip_prefix dst q with
+           | Some r => S (p1 ++ r)
+           | None => if is_prefix p1 q then None else S q
+           end.
+
+Fixpoint lookup_ne (x : nat) (ne : list (nat * list cell)) : option (list cell) :=
+  match ne with
+  | [] => None
+  | (N, c) :: t => if Nat.eqb N x then Some c else lookup_ne x t
+  end.
+
+Lemma outp_inj : forall N N', outp N = outp N' -> N = N'.
+Proof. intros N N' H. unfold out_path in H. apply app_inj_tail in H as [_ H]. injection H. auto. Qed.
+
+Lemma is_prefix_outp_outp : forall N N', is_prefix (outp N) (outp N') = Nat.eqb N N'.
+Proof.
+  intros N N'. rewrite is_prefix_outp. unfold out_path. rewrite strip_prefix_app. reflexivity.
+Qed.
+
+Lemma strip_outp_outp : forall j x r, strip_prefix (outp j) (outp x ++ r) = if Nat.eqb j x then Some r else None.
+Proof.
+  intros j x r. unfold out_path. rewrite strip_prefix_snoc, <- app_assoc, strip_prefix_app. simpl.
+  reflexivity.
+Qed.
+
+Lemma move_file_models : forall f S N j c, models f S ->
+  S (outp N) = Some (File c) -> S (outp j) = None -> S P = Some Dir -> N <> j ->
+  exists f', body_move pure_prims (outp N) (outp j) f = OK tt f' /\ models f' (s_mv (outp N) (outp j) S).
+Proof.
+  intros f S N j c HM HN Hj HSP NE.
+  assert (E1 : is_prefix (outp N) (outp j) = false) by (rewrite is_prefix_outp_outp; apply Nat.eqb_neq; exact NE).
+  assert (E2 : is_prefix (outp j) (outp N) = false) by (rewrite is_prefix_outp_outp; apply Nat.eqb_neq; auto).
+  exists (do_rename f (outp N) (outp j)). split.
+  - unfold body_move, bind. simpl. unfold lift_q, lift_m.
+    assert (Ex : exists_b f (outp N) = true) by (unfold exists_b; rewrite HM, HN; reflexivity).
+    rewrite Ex. unfold move.
+    destruct (outp N) as [|a1 p1] eqn:EoN; [exfalso; apply (outp_nonnil N); exact EoN|]. rewrite <- EoN in *.
+    rewrite HM, HN.
+    assert (Ed : isdir_b f (outp j) = false) by (unfold isdir_b; rewrite HM, Hj; reflexivity). rewrite Ed.
+    destruct (outp j) as [|a2 p2] eqn:Eoj; [exfalso; apply (outp_nonnil j); exact Eoj|]. rewrite <- Eoj in *.
+    assert (Edp : isdir_b f (parent (outp j)) = true).
+    { rewrite parent_outp. unfold isdir_b. rewrite HM, HSP. reflexivity. }
+    rewrite Edp. simpl negb. cbv iota.
+    assert (Ene : path_eqb (outp N) (outp j) = false).
+    { apply path_eqb_neq. intro E. apply outp_inj in E. contradiction. }
+    rewrite Ene, E1, E2. simpl. reflexivity.
+  - intro q. rewrite node_at_do_rename; [|apply outp_nonnil|apply outp_nonnil|exact E1|exact E2].
+    unfold s_mv. destruct (strip_prefix (outp j) q); [apply HM|]. destruct (is_prefix (outp N) q); [reflexivity|apply HM].
+Qed.
+
+Lemma compact_loop : forall ne j f S, models f S -> S P = Some Dir ->
+  (forall N c, In (N, c) ne -> j <= N) ->
+  StronglySorted (fun a b => fst a < fst b) ne ->
+  (forall x r, r <> [] -> S (outp x ++ r) = None) ->
+  (forall x, j <= x -> S (outp x) = match lookup_ne x ne with Some c => Some (File (CRows c)) | None => None end) ->
+  exists f' S', compact pure_wrappers cfg ne j f = OK tt f' /\ models f' S' /\
+    (forall q, (forall x, is_prefix (outp x) q = false) -> S' q = S q) /\
+    (forall x r, r <> [] -> S' (outp x ++ r) = None) /\
+    (forall x, x < j -> S' (outp x) = S (outp x)) /\
+    (forall i, i < List.length ne -> S' (outp (j + i)) = Some (File (CRows (snd (nth i ne (0, [])))))) /\
+    (forall x, j + List.length ne <= x -> S' (outp x) = None).
+Proof.
+  induction ne as [|[N c] ne IH]; intros j f S HM HSP Hge Hsort Ha Hb.
+  - exists f, S. simpl. repeat split; auto; try (intros; lia).
+    intros x Hx. rewrite Hb by lia. reflexivity.
+  - inversion Hsort as [|? ? Hs Hall]. subst.
+    assert (HN : j <= N) by (apply (Hge N c); left; reflexivity).
+    assert (Hrest : forall N' c', In (N', c') ne -> N < N').
+    { intros N' c' H'. rewrite Forall_forall in Hall. apply (Hall (N', c') H'). }
+    assert (Hlk : forall x, x <= N -> lookup_ne x ne = None).
+    { intros x Hx. clear - Hrest Hx. induction ne as [|[N' c'] ne IH]; [reflexivity|]. simpl.
+      assert (N < N') by (apply (Hrest N' c'); left; reflexivity).
+      destruct (Nat.eqb_spec N' x); [lia|]. apply IH. intros; eapply Hrest; right; eauto. }
+    simpl compact. destruct (Nat.eqb_spec N j) as [->|NE].
+    + (* already in place *)
+      destruct (IH (Datatypes.S j) f S HM HSP) as [f' [S' [E [HM' [H1 [H2 [H3 [H4 H5]]]]]]]].
+      * intros N' c' H'. apply Hrest in H'. lia.
+      * exact Hs.
+      * exact Ha.
+      * intros x Hx. rewrite Hb by lia. simpl. destruct (Nat.eqb_spec j x); [lia|reflexivity].
+      * exists f', S'. split; [unfold bind; simpl; exact E|]. split; [exact HM'|].
+        split; [exact H1|]. split; [exact H2|]. split; [intros x Hx; apply H3; lia|]. split.
+        -- intros [|i] Hi.
+           ++ rewrite Nat.add_0_r. rewrite H3 by lia. rewrite Hb by lia. simpl. rewrite Nat.eqb_refl. reflexivity.
+           ++ simpl in Hi. replace (j + Datatypes.S i) with (Datatypes.S j + i) by lia. simpl nth. apply H4. lia.
+        -- intros x Hx. simpl in Hx. apply H5. lia.
+    + (* move part.N down to part.j *)
+      assert (HSN : S (outp N) = Some (File (CRows c))).
+      { rewrite Hb by exact HN. simpl. rewrite Nat.eqb_refl. reflexivity. }
+      assert (HSj : S (outp j) = None).
+      { rewrite Hb by lia. simpl. destruct (Nat.eqb_spec N j); [contradiction|]. rewrite Hlk by lia. reflexivity. }
+      destruct (move_file_models f S N j (CRows c) HM HSN HSj HSP NE) as [f1 [E1 HM1]].
+      set (S1' := s_mv (outp N) (outp j) S) in *.
+      assert (Hout : forall x, S1' (outp x) = if Nat.eqb j x then Some (File (CRows c))
+                                               else if Nat.eqb N x then None else S (outp x)).
+      { intro x. unfold S1', s_mv. rewrite <- (app_nil_r (outp x)) at 1. rewrite strip_outp_outp.
+        destruct (Nat.eqb j x); [rewrite app_nil_r; exact HSN|]. rewrite is_prefix_outp_outp. reflexivity. }
+      destruct (IH (Datatypes.S j) f1 S1' HM1) as [f' [S' [E [HM' [H1 [H2 [H3 [H4 H5]]]]]]]].
+      * unfold S1', s_mv.
+        assert (G : strip_prefix (outp j) P = None).
+        { apply is_prefix_none. unfold out_path. apply is_prefix_longer. discriminate. }
+        rewrite G. assert (G2 : is_prefix (outp N) P = false) by (unfold out_path; apply is_prefix_longer; discriminate).
+        rewrite G2. exact HSP.
+      * intros N' c' H'. apply Hrest in H'. lia.
+      * exact Hs.
+      * intros x r Hr. unfold S1', s_mv. rewrite strip_outp_outp.
+        destruct (Nat.eqb j x); [apply Ha; exact Hr|].
+        destruct (is_prefix (outp N) (outp x ++ r)); [reflexivity|apply Ha; exact Hr].
+      * intros x Hx. rewrite Hout. destruct (Nat.eqb_spec j x); [lia|].
+        destruct (Nat.eqb_spec N x) as [<-|NEx]; [rewrite Hlk by lia; reflexivity|].
+        rewrite Hb by lia. simpl. destruct (Nat.eqb_spec N x); [contradiction|reflexivity].
+      * exists f', S'. split.
+        { unfold bind. change (w_move pure_wrappers (outp N) (outp j) f) with (body_move pure_prims (outp N) (outp j) f).
+          rewrite E1. exact E. }
+        split; [exact HM'|]. split.
+        { intros q Hq. rewrite H1 by exact Hq. unfold S1', s_mv.
+          assert (G : strip_prefix (outp j) q = None) by (apply is_prefix_none; apply Hq).
+          rewrite G, Hq. reflexivity. }
+        split; [exact H2|]. split.
+        { intros x Hx. rewrite H3 by lia. rewrite Hout.
+          destruct (Nat.eqb_spec j x); [lia|]. destruct (Nat.eqb_spec N x); [lia|reflexivity]. }
+        split.
+        -- intros [|i] Hi.
+           ++ rewrite Nat.add_0_r. rewrite H3 by lia. rewrite Hout, Nat.eqb_refl. reflexivity.
+           ++ simpl in Hi. replace (j + Datatypes.S i) with (Datatypes.S j + i) by lia. simpl nth. apply H4. lia.
+        -- intros x Hx. simpl in Hx. apply H5. lia.
+Qed.
+
+(* ------------------------------------------------------------------ the tree after phase 4 *)
+Lemma in_reg_outp : forall N r, in_reg N (outp N ++ r) = true.
+Proof. intros. unfold in_reg. rewrite is_prefix_app. reflexivity. Qed.
+
+Lemma in_reg_under_P : forall N q rl, strip_prefix P q = Some rl ->
+  in_reg N q = match rl with NPart N' :: _ => Nat.eqb N N' | _ => false end.
+Proof.
+  intros N q rl H. unfold in_reg. rewrite is_prefix_outp, H.
+  unfold tmp_path. destruct (c_tmp cfg) as [|t] eqn:Et.
+  - fold (outp N). rewrite is_prefix_outp, H. destruct rl as [|[] ?]; try reflexivity. apply orb_diag.
+  - rewrite (ext_not_under_P t N q rl Et H). apply orb_false_r.
+Qed.
+
+(* a sub-part file lies in the region of its output *)
+Lemma subp_region : forall c q, subp c = q -> in_reg (snd c) q = true.
+Proof. intros c q <-. apply subp_in_reg. Qed.
+
+Lemma S3_outside_regions : forall q, (forall N, N < K -> in_reg N q = false) -> S3 q = S2 q.
+Proof.
+  intros q H. unfold S3. apply set_all_miss. intros c Hc E.
+  apply subp_region in E. rewrite H in E; [discriminate|]. apply cells3_valid. exact Hc.
+Qed.
+
+(* below the dataset directory, anything that is not part.<n>.parquet[/...] is absent until
+   the metadata files are written *)
+Lemma under_P_other : forall a r, (forall N, a <> NPart N) ->
+  (forall N, in_reg N (P ++ a :: r) = false) /\ S3 (P ++ a :: r) = None.
+Proof.
+  intros a r Ha.
+  assert (Hreg : forall N, in_reg N (P ++ a :: r) = false).
+  { intro N. rewrite (in_reg_under_P N _ (a :: r)) by apply strip_prefix_app.
+    destruct a; try reflexivity. exfalso. apply (Ha n). reflexivity. }
+  split; [exact Hreg|].
+  rewrite S3_outside_regions by (intros; apply Hreg). rewrite S2_form.
+  assert (G1 : on_the_way (P ++ a :: r) P = false) by (apply on_the_way_longer; discriminate).
+  assert (G2 : on_the_way (P ++ a :: r) tbase = false).
+  { unfold tbase. destruct (c_tmp cfg) as [|t] eqn:Et; [exact G1|].
+    unfold on_the_way. destruct (P ++ a :: r) eqn:E; [reflexivity|]. rewrite <- E.
+    destruct (is_prefix (P ++ a :: r) t) eqn:E2; [|reflexivity]. exfalso.
+    pose proof Hsep as Hs. unfold tmp_separate in Hs. rewrite Et in Hs. destruct Hs as [Hs _].
+    rewrite (is_prefix_trans P (P ++ a :: r) t (is_prefix_app _ _) E2) in Hs. discriminate. }
+  rewrite G1, G2. simpl.
+  assert (G3 : existsb (fun N => path_eqb (P ++ a :: r) (outp N) || path_eqb (P ++ a :: r) (tmpp N)) (seq 0 K) = false).
+  { apply not_true_is_false. intro E. apply existsb_exists in E as [N [_ E]].
+    apply orb_prop in E as [E|E]; apply path_eqb_eq in E.
+    - pose proof (Hreg N) as G. rewrite E in G. unfold in_reg in G. rewrite is_prefix_refl in G. discriminate.
+    - pose proof (Hreg N) as G. rewrite E in G. unfold in_reg in G. rewrite is_prefix_refl, orb_true_r in G. discriminate. }
+  rewrite G3. apply S1_under. apply is_prefix_app.
+Qed.
+
+Section AfterConcat.
+Variable rs : list (nat * option (list cell)).
+Hypothesis Hrs_fst : Permutation (map fst rs) (seq 0 K).
+Hypothesis Hrs_ok : Forall (fun nr => res_ok (fst nr) (snd nr)) rs.
+
+Definition S4 : spec := Ufold rs S3.
+
+Lemma rs_nodup : NoDup (map fst rs).
+Proof. apply (Permutation_NoDup (Permutation_sym Hrs_fst)). apply seq_NoDup. Qed.
+
+Lemma rs_in : forall N, N < K -> exists r, In (N, r) rs.
+Proof.
+  intros N HN. assert (H : In N (map fst rs)).
+  { apply (Permutation_in _ (Permutation_sym Hrs_fst)). apply in_seq0. exact HN. }
+  apply in_map_iff in H as [[N' r] [E H]]. simpl in E. subst. eauto.
+Qed.
+
+Lemma rs_lt : forall N r, In (N, r) rs -> N < K.
+Proof.
+  intros N r H. apply in_seq0. apply (Permutation_in _ Hrs_fst). apply in_map_iff. exists (N, r). auto.
+Qed.
+
+Lemma find_result_in : forall N r, In (N, r) rs -> find_result N rs = Some r.
+Proof.
+  intros N r H. pose proof rs_nodup as Hnd. clear Hrs_fst Hrs_ok. induction rs as [|[N0 r0] l IH]; [contradiction|].
+  simpl in *. inversion Hnd as [|? ? Hx Hnd']. subst. destruct H as [E|H].
+  - injection E as -> ->. rewrite Nat.eqb_refl. reflexivity.
+  - destruct (Nat.eqb_spec N0 N) as [->|]; [|apply IH; assumption].
+    exfalso. apply Hx. apply in_map_iff. exists (N, r). auto.
+Qed.
+
+Lemma find_result_none : forall N, K <= N -> find_result N rs = None.
+Proof.
+  intros N HN. assert (H : forall r, ~ In (N, r) rs) by (intros r Hr; apply rs_lt in Hr; lia).
+  clear Hrs_fst Hrs_ok. induction rs as [|[N0 r0] l IH]; [reflexivity|]. simpl.
+  destruct (Nat.eqb_spec N0 N) as [->|]; [exfalso; apply (H r0); left; reflexivity|].
+  apply IH. intros r Hr. apply (H r). right. exact Hr.
+Qed.
+
+Lemma S4_P : S4 P = Some Dir.
+Proof.
+  unfold S4. rewrite Ufold_miss; [apply S3_P|]. intros [N r] _. simpl. unfold in_reg.
+  rewrite tmpp_vs_P. assert (G : is_prefix (outp N) P = false) by (unfold out_path; apply is_prefix_longer; discriminate).
+  rewrite G. reflexivity.
+Qed.
+
+Lemma S4_miss : forall q, (forall N, N < K -> in_reg N q = false) -> S4 q = S2 q.
+Proof.
+  intros q H. unfold S4. rewrite Ufold_miss.
+  - apply S3_outside_regions. exact H.
+  - intros [N r] Hnr. simpl. apply H. eapply rs_lt; eauto.
+Qed.
+
+Lemma S4_hit : forall N r q, In (N, r) rs -> in_reg N q = true -> S4 q = U_val N r q.
+Proof. intros. unfold S4. apply Ufold_hit; [apply rs_nodup|assumption|assumption]. Qed.
+
+Lemma outp_other_regions : forall x N r, N <> x -> in_reg N (outp x ++ r) = false.
+Proof. intros x N r NE. apply (reg_disjoint N x); [exact NE|apply in_reg_outp]. Qed.
+
+Lemma S4_below_outp : forall x r, r <> [] -> S4 (outp x ++ r) = None.
+Proof.
+  intros x r Hr. destruct (Nat.lt_ge_cases x K) as [L|L].
+  - destruct (rs_in x L) as [rx Hx]. rewrite (S4_hit x rx) by (try exact Hx; apply in_reg_outp).
+    unfold U_val. destruct rx; [|reflexivity].
+    assert (G : path_eqb (outp x) (outp x ++ r) = false).
+    { apply path_eqb_len. rewrite app_length. destruct r; [contradiction|simpl; lia]. }
+    rewrite G. reflexivity.
+  - rewrite S4_miss; [apply S2_below; exact Hr|].
+    intros N HN. apply outp_other_regions. lia.
+Qed.
+
+Lemma S2_outp_high : forall x, K <= x -> S2 (outp x) = None.
+Proof.
+  intros x Hx. rewrite S2_form.
+  assert (G1 : on_the_way (outp x) P = false) by (unfold out_path; apply on_the_way_longer; discriminate).
+  assert (G2 : on_the_way (outp x) tbase = false).
+  { unfold tbase. destruct (c_tmp cfg) as [|t] eqn:Et; [exact G1|].
+    unfold on_the_way. destruct (outp x) eqn:E; [reflexivity|]. rewrite <- E.
+    destruct (is_prefix (outp x) t) eqn:E2; [|reflexivity]. exfalso.
+    pose proof Hsep as Hs. unfold tmp_separate in Hs. rewrite Et in Hs. destruct Hs as [Hs _].
+    assert (C : is_prefix P t = true) by (eapply is_prefix_trans; [|exact E2]; unfold out_path; apply is_prefix_app).
+    congruence. }
+  rewrite G1, G2. simpl.
+  assert (G3 : existsb (fun N => path_eqb (outp x) (outp N) || path_eqb (outp x) (tmpp N)) (seq 0 K) = false).
+  { apply not_true_is_false. intro E. apply existsb_exists in E as [N [HN E]]. apply in_seq0 in HN.
+    apply orb_prop in E as [E|E]; apply path_eqb_eq in E.
+    - apply outp_inj in E. lia.
+    - assert (G : in_reg N (outp x ++ []) = false) by (apply outp_other_regions; lia).
+      rewrite app_nil_r, E in G. unfold in_reg in G. rewrite is_prefix_refl, orb_true_r in G. discriminate. }
+  rewrite G3. apply S1_under. unfold out_path. apply is_prefix_app.
+Qed.
+
+Lemma S4_outp : forall x,
+  S4 (outp x) = match find_result x rs with Some (Some c) => Some (File (CRows c)) | _ => None end.
+Proof.
+  intro x. destruct (Nat.lt_ge_cases x K) as [L|L].
+  - destruct (rs_in x L) as [rx Hx]. rewrite (find_result_in _ _ Hx).
+    rewrite (S4_hit x rx); [|exact Hx|rewrite <- (app_nil_r (outp x)); apply in_reg_outp].
+    unfold U_val. destruct rx; [rewrite path_eqb_refl|]; reflexivity.
+  - rewrite find_result_none by exact L. rewrite S4_miss; [apply S2_outp_high; exact L|].
+    intros N HN. rewrite <- (app_nil_r (outp x)). apply outp_other_regions. lia.
+Qed.
+
+(* ------------------------------------------------------------------ the non-empty parts *)
+Lemma lookup_nonempty_parts : forall Ns x, NoDup Ns ->
+  lookup_ne x (nonempty_parts rs Ns) =
+    if existsb (Nat.eqb x) Ns then match find_result x rs with Some (Some c) => Some c | _ => None end
+    else None.
+Proof.
+  induction Ns as [|N Ns IH]; intros x Hnd; [reflexivity|].
+  inversion Hnd as [|? ? Hx Hnd']. subst. simpl.
+  destruct (Nat.eqb_spec x N) as [->|NE]; simpl.
+  - destruct (find_result N rs) as [[c|]|] eqn:Ef; simpl.
+    + rewrite Nat.eqb_refl. reflexivity.
+    + rewrite IH by exact Hnd'.
+      assert (G : existsb (Nat.eqb N) Ns = false).
+      { apply not_true_is_false. intro E. apply existsb_exists in E as [y [Hy E]]. apply Nat.eqb_eq in E. subst. contradiction. }
+      rewrite G. reflexivity.
+    + rewrite IH by exact Hnd'.
+      assert (G : existsb (Nat.eqb N) Ns = false).
+      { apply not_true_is_false. intro E. apply existsb_exists in E as [y [Hy E]]. apply Nat.eqb_eq in E. subst. contradiction. }
+      rewrite G. reflexivity.
+  - destruct (find_result N rs) as [[c|]|]; simpl; try (apply IH; exact Hnd').
+    destruct (Nat.eqb_spec N x); [subst; contradiction|]. apply IH. exact Hnd'.
+Qed.
+
+Lemma nonempty_parts_sorted : forall n a,
+  StronglySorted (fun u v => fst u < fst v) (nonempty_parts rs (seq a n)) /\
+  (forall N c, In (N, c) (nonempty_parts rs (seq a n)) -> a <= N).
+Proof.
+  induction n as [|n IH]; intro a; simpl; [split; [constructor|contradiction]|].
+  destruct (IH (Datatypes.S a)) as [Hs Hge].
+  destruct (find_result a rs) as [[c|]|]; try (split; [exact Hs|intros N c' H; apply Hge in H; lia]).
+  split.
+  - constructor; [exact Hs|]. apply Forall_forall. intros [N c'] H. simpl. apply Hge in H. lia.
+  - intros N c' [E|H]; [injection E as <- _; lia|apply Hge in H; lia].
+Qed.
+
+Definition ne : list (nat * list cell) := nonempty_parts rs (seq 0 K).
+Definition parts : list (list cell) := map snd ne.
+
+(* has_output agrees with the cells *)
+Lemma cells_from_nonempty : forall a i N, cells_from a i N <> [] <-> has_output a N = true.
+Proof.
+  induction a as [|outs a IH]; intros i N; simpl.
+  - split; [congruence|discriminate].
+  - unfold has_output in *. simpl. destruct (existsb (Nat.eqb N) outs); simpl.
+    + split; [reflexivity|discriminate].
+    + apply IH.
+Qed.
+
+Lemma cells_of_nonempty : forall N, cells_of asg N <> [] <-> has_output asg N = true.
+Proof. intro N. apply cells_from_nonempty. Qed.
+
+(* part j of the result holds the rows of the j-th non-empty output *)
+Lemma parts_content :
+  Forall2 (fun p N => Permutation p (cells_of asg N)) parts (nonempty_outputs K asg).
+Proof.
+  unfold parts, ne, nonempty_outputs.
+  assert (G : forall Ns, (forall N, In N Ns -> N < K) ->
+            Forall2 (fun p N => Permutation p (cells_of asg N))
+                    (map snd (nonempty_parts rs Ns)) (filter (has_output asg) Ns)).
+  { induction Ns as [|N Ns IH]; intro Hlt; simpl; [constructor|].
+    assert (HN : N < K) by (apply Hlt; left; reflexivity).
+    assert (IH' := IH (fun N' H' => Hlt N' (or_intror H'))).
+    destruct (rs_in N HN) as [r Hr]. rewrite (find_result_in _ _ Hr).
+    rewrite Forall_forall in Hrs_ok. specialize (Hrs_ok (N, r) Hr). simpl in Hrs_ok.
+    destruct Hrs_ok as [[-> Hc]|[cells [-> [Hp Hc]]]].
+    - assert (E : has_output asg N = false).
+      { apply not_true_is_false. intro E. apply cells_of_nonempty in E. contradiction. }
+      rewrite E. exact IH'.
+    - apply cells_of_nonempty in Hc. rewrite Hc. simpl. constructor; [exact Hp|exact IH']. }
+  apply G. intros N HN. apply in_seq0. exact HN.
+Qed.
+
+Lemma ne_lookup : forall x,
+  lookup_ne x ne = match find_result x rs with Some (Some c) => Some c | _ => None end.
+Proof.
+  intro x. unfold ne. rewrite lookup_nonempty_parts by apply seq_NoDup.
+  destruct (existsb (Nat.eqb x) (seq 0 K)) eqn:E; [reflexivity|].
+  rewrite find_result_none; [reflexivity|].
+  destruct (Nat.lt_ge_cases x K) as [L|L]; [|exact L]. exfalso.
+  assert (G : existsb (Nat.eqb x) (seq 0 K) = true).
+  { apply existsb_exists. exists x. split; [apply in_seq0; exact L|apply Nat.eqb_refl]. }
+  congruence.
+Qed.
+
+(* ------------------------------------------------------------------ phases 5-7 *)
+Lemma write_models_m : forall f S p c, models f S -> p <> [] ->
+  S (parent p) = Some Dir -> S p <> Some Dir ->
+  exists f', p_write pure_prims p c f = OK tt f' /\ models f' (s_set p (File c) S).
+Proof.
+  intros f S p c HM Hp Hpar Hnd. simpl. unfold lift_m.
+  rewrite write_intro; [|exact Hp| |].
+  - exists (upsert f p (File c)). split; [reflexivity|].
+    intro q. rewrite node_at_upsert by exact Hp. unfold s_set. rewrite HM. reflexivity.
+  - unfold isdir_b. rewrite HM, Hpar. reflexivity.
+  - rewrite HM. exact Hnd.
+Qed.
+
+Lemma find_In : forall f d p c, node_at f p = Some (File c) -> p <> [] -> is_prefix d p = true ->
+  In p (find f d).
+Proof.
+  intros f d p c H Hp Hd. rewrite node_at_nonnil in H by exact Hp. unfold find.
+  apply in_map_iff.
+  assert (G : exists n, In (p, n) f /\ assoc f p = Some n).
+  { clear Hd Hp. induction f as [|[k m] f IH]; simpl in *; [discriminate|].
+    destruct (path_eqb_spec k p) as [->|NE].
+    - exists m. split; [left; reflexivity|reflexivity].
+    - destruct (IH H) as [n [Hin Ha]]. exists n. split; [right; exact Hin|exact Ha]. }
+  destruct G as [n [Hin Ha]]. rewrite H in Ha. injection Ha as <-.
+  exists (p, File c). split; [reflexivity|]. apply filter_In. split; [exact Hin|]. simpl. rewrite Hd. reflexivity.
+Qed.
+
+Definition meta_path : path := P ++ [NMeta].
+Definition common_path : path := P ++ [NCommon].
+
+Definition S7 (S5 : spec) : spec :=
+  s_set common_path (File (CCommon parts)) (s_set meta_path (File (CMeta parts)) S5).
+
+Hypothesis Hne : ne <> [].
+
+Lemma phases_5_7 : forall f4, models f4 S4 ->
+  exists f7 S5,
+    (compact pure_wrappers cfg ne 0 ;;;
+     w_write_metadata pure_wrappers P parts ;;;
+     w_write_common pure_wrappers P parts ;;;
+     w_final_read pure_wrappers P ;;;
+     ret parts) f4 = OK parts f7 /\
+    models f7 (S7 S5) /\
+    (forall q, (forall x, is_prefix (outp x) q = false) -> S5 q = S4 q) /\
+    (forall x r, r <> [] -> S5 (outp x ++ r) = None) /\
+    (forall x, S5 (outp x) = match nth_error parts x with Some c => Some (File (CRows c)) | None => None end).
+Proof.
+  intros f4 HM4.
+  destruct (nonempty_parts_sorted K 0) as [Hsorted _].
+  destruct (compact_loop ne 0 f4 S4 HM4 S4_P) as [f5 [S5 [E5 [HM5 [H1 [H2 [H3 [H4 H5]]]]]]]].
+  { intros; lia. }
+  { exact Hsorted. }
+  { apply S4_below_outp. }
+  { intros x _. rewrite S4_outp, ne_lookup. destruct (find_result x rs) as [[c|]|]; reflexivity. }
+  assert (Hparts : forall x, S5 (outp x) = match nth_error parts x with Some c => Some (File (CRows c)) | None => None end).
+  { intro x. unfold parts. destruct (Nat.lt_ge_cases x (List.length ne)) as [L|L].
+    - specialize (H4 x L). simpl in H4. rewrite H4.
+      rewrite (nth_error_nth' (map snd ne) [] ) by (rewrite map_length; exact L).
+      change [] with (snd (0, @nil cell)). rewrite map_nth. reflexivity.
+    - rewrite (H5 x) by (simpl; lia). assert (G : nth_error (map snd ne) x = None).
+      { apply nth_error_None. rewrite map_length. exact L. }
+      rewrite G. reflexivity. }
+  assert (HnoP : forall x, is_prefix (outp x) P = false).
+  { intro x. unfold out_path. apply is_prefix_longer. discriminate. }
+  assert (HS5P : S5 P = Some Dir) by (rewrite H1 by exact HnoP; apply S4_P).
+  (* _metadata *)
+  assert (Hother : forall a, (forall N, a <> NPart N) -> S5 (P ++ [a]) = None).
+  { intros a Ha. rewrite H1.
+    - destruct (under_P_other a [] Ha) as [Hreg H3']. unfold S4. rewrite Ufold_miss; [exact H3'|].
+      intros [N r] _. apply Hreg.
+    - intro x. rewrite is_prefix_outp, strip_prefix_app. destruct a; try reflexivity.
+      exfalso. apply (Ha n). reflexivity. }
+  destruct (write_models_m f5 S5 meta_path (CMeta parts) HM5) as [f6 [E6 HM6]].
+  { apply snoc_not_nil. }
+  { unfold meta_path. rewrite parent_snoc. exact HS5P. }
+  { unfold meta_path. rewrite Hother; [discriminate|]. intros N; discriminate. }
+  (* _common_metadata *)
+  assert (Hne_cm : path_eqb meta_path common_path = false).
+  { apply path_eqb_neq. unfold meta_path, common_path. intro E. apply app_inv_head in E. discriminate. }
+  destruct (write_models_m f6 _ common_path (CCommon parts) HM6) as [f7 [E7 HM7]].
+  { apply snoc_not_nil. }
+  { unfold common_path. rewrite parent_snoc. unfold s_set.
+    assert (G : path_eqb meta_path P = false).
+    { apply path_eqb_len. unfold meta_path. rewrite app_length. simpl. lia. }
+    rewrite G. exact HS5P. }
+  { unfold s_set. rewrite Hne_cm. unfold common_path. rewrite Hother; [discriminate|]. intros N; discriminate. }
+  (* part.0.parquet exists and is a data file *)
+  destruct ne as [|[N0 c0] ne'] eqn:Ene; [contradiction|].
+  assert (Hp0 : forall S', (forall q, path_eqb meta_path q = false -> path_eqb common_path q = false -> S' q = S5 q) ->
+                S' (outp 0) = Some (File (CRows c0))).
+  { intros S' HS'. rewrite HS'.
+    - rewrite Hparts. unfold parts. rewrite Ene. reflexivity.
+    - apply path_eqb_neq. unfold meta_path, out_path. intro E. apply app_inv_head in E. discriminate.
+    - apply path_eqb_neq. unfold common_path, out_path. intro E. apply app_inv_head in E. discriminate. }
+  assert (H60 : node_at f6 (outp 0) = Some (File (CRows c0))).
+  { rewrite HM6. apply Hp0. intros q Hq _. unfold s_set. rewrite Hq. reflexivity. }
+  assert (H70 : node_at f7 (outp 0) = Some (File (CRows c0))).
+  { rewrite HM7. apply Hp0. intros q Hq1 Hq2. unfold s_set. rewrite Hq2, Hq1. reflexivity. }
+  assert (H7P : node_at f7 P = Some Dir).
+  { rewrite HM7. unfold s_set.
+    assert (G1 : path_eqb common_path P = false).
+    { apply path_eqb_len. unfold common_path. rewrite app_length. simpl. lia. }
+    assert (G2 : path_eqb meta_path P = false).
+    { apply path_eqb_len. unfold meta_path. rewrite app_length. simpl. lia. }
+    rewrite G1, G2. exact HS5P. }
+  assert (H7c : node_at f7 common_path = Some (File (CCommon parts))).
+  { rewrite HM7. unfold s_set. rewrite path_eqb_refl. reflexivity. }
+  exists f7, S5. split; [|split; [exact HM7|split; [exact H1|split; [exact H2|exact Hparts]]]].
+  (* run the tail of the procedure *)
+  unfold bind. rewrite E5.
+  change (w_write_metadata pure_wrappers P parts f5) with (p_write pure_prims meta_path (CMeta parts) f5).
+  rewrite E6.
+  assert (Ecm : w_write_common pure_wrappers P parts f6 = OK tt f7).
+  { change (w_write_common pure_wrappers P parts f6) with (body_write_common pure_prims P parts f6).
+    eapply write_common_pure_ok; [exact H60|exact E7]. }
+  rewrite Ecm.
+  assert (Efr : w_final_read pure_wrappers P f7 = OK tt f7).
+  { change (w_final_read pure_wrappers P f7) with (body_final_read pure_prims P f7).
+    eapply final_read_pure_ok; [exact H7P|exact H70|exact H7c|].
+    eapply find_In; [exact H70|apply outp_nonnil|unfold out_path; apply is_prefix_app]. }
+  rewrite Efr. reflexivity.
+Qed.
+
+(* ------------------------------------------------------------------ the final tree, path by path *)
+Lemma final_form : forall S5,
+  (forall q, (forall x, is_prefix (outp x) q = false) -> S5 q = S4 q) ->
+  (forall x r, r <> [] -> S5 (outp x ++ r) = None) ->
+  (forall x, S5 (outp x) = match nth_error parts x with Some c => Some (File (CRows c)) | None => None end) ->
+  forall q, S7 S5 q = expected_node f0 cfg parts q.
+Proof.
+  intros S5 H1 H2 H3 q. unfold expected_node, S7, s_set, meta_path, common_path.
+  rewrite !path_eqb_snoc.
+  destruct (strip_prefix P q) as [rl|] eqn:E.
+  - apply strip_prefix_some in E. subst q.
+    assert (Hother : forall a r, (forall N, a <> NPart N) -> S5 (P ++ a :: r) = None).
+    { intros a r Ha. rewrite H1.
+      - destruct (under_P_other a r Ha) as [Hreg H3']. unfold S4. rewrite Ufold_miss; [exact H3'|].
+        intros [N r0] _. apply Hreg.
+      - intro x. rewrite is_prefix_outp, strip_prefix_app. destruct a; try reflexivity.
+        exfalso. apply (Ha n). reflexivity. }
+    destruct rl as [|a r].
+    + (* the dataset directory itself *)
+      rewrite app_nil_r. simpl. rewrite H1; [apply S4_P|]. intro x. unfold out_path. apply is_prefix_longer. discriminate.
+    + destruct a; simpl.
+      * (* part.<n>.parquet and below *)
+        destruct r as [|b r].
+        -- change (P ++ [NPart n]) with (outp n). apply H3.
+        -- change (P ++ NPart n :: b :: r) with (P ++ [NPart n] ++ b :: r). rewrite app_assoc.
+           change (P ++ [NPart n]) with (outp n). rewrite H2 by discriminate. reflexivity.
+      * destruct r; simpl; apply Hother; intros; discriminate.
+      * destruct r; simpl; apply Hother; intros; discriminate.
+      * destruct r; simpl; [reflexivity|]. apply Hother; intros; discriminate.
+      * destruct r; simpl; [reflexivity|]. apply Hother; intros; discriminate.
+      * destruct r; simpl; apply Hother; intros; discriminate.
+  - (* outside the dataset *)
+    assert (HnoP : is_prefix P q = false) by (apply is_prefix_none; exact E).
+    assert (Hnoout : forall x, is_prefix (outp x) q = false).
+    { intro x. rewrite is_prefix_outp, E. reflexivity. }
+    rewrite H1 by exact Hnoout.
+    assert (HS1 : S1 q = node_at f0 q) by (unfold S1, S0; rewrite HnoP; reflexivity).
+    destruct (existsb (fun N => in_reg N q) (seq 0 K)) eqn:Ereg.
+    + (* inside a temp directory of the run: removed *)
+      apply existsb_exists in Ereg as [N [HN Hreg]]. apply in_seq0 in HN.
+      destruct (rs_in N HN) as [r Hr]. rewrite (S4_hit N r q Hr Hreg).
+      assert (Hval : U_val N r q = None).
+      { unfold U_val. destruct r; [|reflexivity].
+        destruct (path_eqb_spec (outp N) q) as [Eq|]; [|reflexivity].
+        pose proof (Hnoout N) as G. rewrite <- Eq, is_prefix_refl in G. discriminate. }
+      rewrite Hval. unfold in_reg in Hreg. rewrite Hnoout in Hreg. simpl in Hreg.
+      unfold tmp_path in Hreg. destruct (c_tmp cfg) as [|t] eqn:Et.
+      * fold (outp N) in Hreg. rewrite Hnoout in Hreg. discriminate.
+      * destruct Hprior as (_ & _ & _ & _ & Hext & _). rewrite Et in Hext. destruct Hext as [_ Hext].
+        assert (G1 : on_the_way q P = false).
+        { unfold on_the_way. destruct q as [|a q']; [reflexivity|].
+          destruct (is_prefix (a :: q') P) eqn:E2; [|reflexivity]. exfalso.
+          pose proof (tmpp_vs_P N) as G. unfold tmp_path in G. rewrite Et in G.
+          rewrite (is_prefix_trans _ _ _ Hreg E2) in G. discriminate. }
+        assert (G2 : on_the_way q t = false).
+        { unfold on_the_way. destruct q as [|a q']; [reflexivity|].
+          destruct (is_prefix (a :: q') t) eqn:E2; [|reflexivity]. exfalso.
+          pose proof (is_prefix_trans _ _ _ Hreg E2) as G. rewrite is_prefix_longer in G; discriminate. }
+        rewrite G1, G2. simpl. symmetry. apply (Hext N q Hreg).
+    + (* untouched except for the directories makedirs created on the way *)
+      assert (Hmiss : forall N, N < K -> in_reg N q = false).
+      { intros N HN. apply not_true_is_false. intro Hq.
+        assert (G : existsb (fun N => in_reg N q) (seq 0 K) = true).
+        { apply existsb_exists. exists N. split; [apply in_seq0; exact HN|exact Hq]. }
+        congruence. }
+      rewrite S4_miss by exact Hmiss. rewrite S2_form.
+      assert (G3 : existsb (fun N => path_eqb q (outp N) || path_eqb q (tmpp N)) (seq 0 K) = false).
+      { apply not_true_is_false. intro Ex. apply existsb_exists in Ex as [N [HN Ex]]. apply in_seq0 in HN.
+        specialize (Hmiss N HN). unfold in_reg in Hmiss.
+        apply orb_prop in Ex as [Ex|Ex]; apply path_eqb_eq in Ex; subst q;
+          rewrite is_prefix_refl in Hmiss; [discriminate|rewrite orb_true_r in Hmiss; discriminate]. }
+      rewrite G3, HS1. unfold tbase. destruct (c_tmp cfg) as [|t].
+      * rewrite orb_diag. reflexivity.
+      * reflexivity.
+Qed.
+End AfterConcat.
+
+(* ------------------------------------------------------------------ the whole call *)
+Hypothesis Hnonempty : nonempty_outputs K asg <> [].
+
+Theorem pack_ok :
+  exists ps f7, pack f0 cfg asg = OK ps f7 /\
+    (forall q, node_at f7 q = expected_node f0 cfg ps q) /\
+    Forall2 (fun p N => Permutation p (cells_of asg N)) ps (nonempty_outputs K asg).
+Proof.
+  destruct phase1 as [f1 [E1 G1]].
+  destruct (phase2 f1 G1) as [f2 [E2 G2]].
+  destruct (phase3 f2 G2) as [f3 [E3 G3]].
+  destruct Hord as [_ Hco].
+  destruct (concat_loop (c_corder cfg) f3 S3) as [rs [f4 [E4 [G4 [Hfst Hres]]]]].
+  { apply (Permutation_NoDup (Permutation_sym Hco)). apply seq_NoDup. }
+  { intros N HN. apply in_seq0. apply (Permutation_in _ Hco HN). }
+  { exact G3. }
+  { exact S3_P. }
+  { intros; reflexivity. }
+  assert (Hrs_fst : Permutation (map fst rs) (seq 0 K)) by (rewrite Hfst; exact Hco).
+  pose proof (parts_content rs Hrs_fst Hres) as Hcontent.
+  assert (Hne : ne rs <> []).
+  { intro E. unfold parts in Hcontent. rewrite E in Hcontent. simpl in Hcontent.
+    inversion Hcontent as [HH HH2|]. apply Hnonempty. symmetry. exact HH2. }
+  destruct (phases_5_7 rs Hrs_fst Hne f4 (proj1 G4)) as [f7 [S5 [E7 [HM7 [H1 [H2 H3]]]]]].
+  exists (parts rs), f7. split; [|split; [|exact Hcontent]].
+  - unfold pack, pack_proc. unfold bind at 1.
+    change (w_rm pure_wrappers P) with (body_rm pure_prims P). rewrite E1.
+    unfold bind at 1. rewrite E2.
+    unfold bind at 1. rewrite E3.
+    unfold bind at 1. fold concat_task. rewrite E4.
+    cbv zeta. fold (ne rs). fold (parts rs).
+    destruct (ne rs) as [|x l] eqn:Ene; [contradiction|]. exact E7.
+  - intro q. rewrite HM7. apply final_form; assumption.
+Qed.
+End Pack.
+
+(* ================================================================== the theorems of C10 *)
+Lemma nonempty_K : forall k asg, nonempty_outputs k asg <> [] -> 0 < k.
+Proof. intros [|k] asg H; [exfalso; apply H; reflexivity|lia]. Qed.
+
+Lemma Forall2_len : forall A B (R : A -> B -> Prop) l1 l2, Forall2 R l1 l2 -> List.length l1 = List.length l2.
+Proof. intros A B R l1 l2 H. induction H; simpl; [reflexivity|]. rewrite IHForall2. reflexivity. Qed.
+
+Theorem pack_layout : forall f0 cfg asg,
+  prior_ok f0 cfg -> tmp_separate cfg -> wf_asg (c_k cfg) asg -> wf_orders cfg asg ->
+  nonempty_outputs (c_k cfg) asg <> [] ->
+  exists parts f1,
+    pack f0 cfg asg = OK parts f1 /\
+    (forall q, node_at f1 q = expected_node f0 cfg parts q) /\
+    Forall2 (fun p N => Permutation p (cells_of asg N)) parts (nonempty_outputs (c_k cfg) asg).
+Proof.
+  intros f0 cfg asg Hp Hs Ha Ho Hn.
+  exact (pack_ok cfg asg f0 Hp Hs (nonempty_K _ _ Hn) Ha Ho Hn).
+Qed.
+
+(* the dataset directory after the call does not depend on what was there before *)
+Theorem pack_overwrite : forall f0 cfg asg,
+  prior_ok f0 cfg -> tmp_separate cfg -> wf_asg (c_k cfg) asg -> wf_orders cfg asg ->
+  nonempty_outputs (c_k cfg) asg <> [] ->
+  exists parts f1,
+    pack f0 cfg asg = OK parts f1 /\
+    List.length parts = List.length (nonempty_outputs (c_k cfg) asg) /\
+    forall q rl, strip_prefix (c_path cfg) q = Some rl -> node_at f1 q = dataset_node parts rl.
+Proof.
+  intros f0 cfg asg Hp Hs Ha Ho Hn.
+  destruct (pack_layout f0 cfg asg Hp Hs Ha Ho Hn) as [parts [f1 [E [HL HC]]]].
+  exists parts, f1. split; [exact E|]. split; [eapply Forall2_len; eauto|].
+  intros q rl Hq. rewrite HL. unfold expected_node. rewrite Hq. reflexivity.
+Qed.
+
+(* when the directories leading to the dataset (and to the external temp directories) exist
+   beforehand, nothing outside the dataset directory is changed: no temporary or placeholder
+   entry is left anywhere *)
+Theorem pack_outside_untouched : forall f0 cfg asg,
+  prior_ok f0 cfg -> tmp_separate cfg -> wf_asg (c_k cfg) asg -> wf_orders cfg asg ->
+  nonempty_outputs (c_k cfg) asg <> [] ->
+  (forall q, on_the_way q (parent (c_path cfg)) = true -> node_at f0 q = Some Dir) ->
+  match c_tmp cfg with
+  | TInside => True
+  | TExternal t => forall q, on_the_way q t = true -> node_at f0 q = Some Dir
+  end ->
+  exists parts f1,
+    pack f0 cfg asg = OK parts f1 /\
+    forall q, is_prefix (c_path cfg) q = false -> node_at f1 q = node_at f0 q.
+Proof.
+  intros f0 cfg asg Hp Hs Ha Ho Hn Habove Htmp.
+  destruct (pack_layout f0 cfg asg Hp Hs Ha Ho Hn) as [parts [f1 [E [HL HC]]]].
+  exists parts, f1. split; [exact E|]. intros q Hq. rewrite HL. unfold expected_node.
+  apply is_prefix_none in Hq. rewrite Hq.
+  assert (HwayP : on_the_way q (c_path cfg) = true -> node_at f0 q = Some Dir).
+  { intro H. destruct Hp as (_ & HP & _). destruct (exists_last HP) as [P' [a EP]].
+    apply Habove. rewrite EP, parent_snoc. rewrite EP in H. rewrite on_the_way_snoc in H.
+    apply orb_prop in H as [H|H]; [exact H|]. apply path_eqb_eq in H. subst q.
+    rewrite <- EP in Hq. apply is_prefix_none in Hq. rewrite is_prefix_refl in Hq. discriminate. }
+  destruct (c_tmp cfg) as [|t].
+  - destruct (on_the_way q (c_path cfg)) eqn:E1; [symmetry; apply HwayP; reflexivity|reflexivity].
+  - destruct (on_the_way q (c_path cfg)) eqn:E1; simpl; [symmetry; apply HwayP; reflexivity|].
+    destruct (on_the_way q t) eqn:E2; [symmetry; apply Htmp; exact E2|reflexivity].
+Qed.
+
+Theorem pack_content : forall f0 cfg asg,
+  prior_ok f0 cfg -> tmp_separate cfg -> wf_asg (c_k cfg) asg -> wf_orders cfg asg ->
+  nonempty_outputs (c_k cfg) asg <> [] ->
+  exists parts f1,
+    pack f0 cfg asg = OK parts f1 /\
+    Forall2 (fun p N => Permutation p (cells_of asg N)) parts (nonempty_outputs (c_k cfg) asg).
+Proof.
+  intros f0 cfg asg Hp Hs Ha Ho Hn.
+  destruct (pack_layout f0 cfg asg Hp Hs Ha Ho Hn) as [parts [f1 [E [_ HC]]]]. eauto.
 Qed.
